@@ -1,9 +1,10 @@
 (* Mgr — C05: the dial ledger as an inductive invariant over every feasible event history.
 
    Ghost state (computed from the events and from the calls the manager makes, never from its
-   private maps): what the transport still owes an answer for, which attempts exist, which were
-   named by a terminal output, which were superseded / rejected by the limit. The transport
-   contract (`feas`) says which events may happen given those obligations. *)
+   private maps): what the transports still owe an answer for — in the opening phase per
+   (connection id, transport) —, which attempts exist, which were named by a terminal output,
+   which were superseded / rejected by the limit. The transport contract (`feas`) says which
+   events may happen given those obligations. *)
 From Coq Require Import List Arith NArith Bool Lia.
 From Coq Require Import ZifyBool ZifyNat ZifyN.
 From V.Mgr Require Import DialShape Model Caps Ledger.
@@ -13,10 +14,11 @@ Open Scope N_scope.
 Arguments N.add : simpl never.
 Arguments N.eqb : simpl never.
 Arguments N.leb : simpl never.
+Arguments N.ltb : simpl never.
 Arguments N.of_nat : simpl never.
 
 Record ghost := mkG {
-  g_open : list conn;            (* open(c) called, not answered, not cancelled *)
+  g_open : list (conn * tr);     (* open(c) called on transport t, not answered by t, not cancelled on t *)
   g_neg : list conn;             (* dial(c) / negotiate(c) called, not answered *)
   g_att : list (conn * peer);    (* accepted dial attempts: id -> dialled peer *)
   g_done : list conn;            (* ids named by a terminal output so far *)
@@ -28,20 +30,35 @@ Record ghost := mkG {
 
 Definition g0 : ghost := mkG [] [] [] [] [] [] [] [].
 
-Definition out_open (o : out) : list conn := match o with CallOpen c => [c] | _ => [] end.
+Definition out_open (o : out) : list (conn * tr) := match o with CallOpen c t => [(c, t)] | _ => [] end.
 Definition out_dialneg (o : out) : list conn :=
-  match o with CallDial c | CallNegotiate c => [c] | _ => [] end.
-Definition out_cancel (o : out) : list conn := match o with CallCancel c => [c] | _ => [] end.
-Definition out_reject (o : out) : list conn := match o with CallReject c => [c] | _ => [] end.
+  match o with CallDial c _ | CallNegotiate c _ => [c] | _ => [] end.
+Definition out_cancel (o : out) : list (conn * tr) := match o with CallCancel c t => [(c, t)] | _ => [] end.
+Definition out_reject (o : out) : list conn := match o with CallReject c _ => [c] | _ => [] end.
 Definition out_term (o : out) : list conn :=
-  match o with EvEstablished _ c | EvDialFailure c _ | EvOpenFailure c => [c] | _ => [] end.
+  match o with EvEstablished _ c | EvDialFailure c _ | EvOpenFailure c _ => [c] | _ => [] end.
 Definition out_rep (o : out) : list peer := match o with EvEstablished p _ => [p] | _ => [] end.
 Definition ret_ok (os : list out) : bool := existsb (fun o => match o with Ret r => r =? RET_OK | _ => false end) os.
 
 Definition removes (xs l : list N) : list N := filter (fun y => negb (mem y xs)) l.
+Definition pair_eqb (a b : N * N) : bool := (fst a =? fst b) && (snd a =? snd b).
+Definition mem_p (x : N * N) (l : list (N * N)) : bool := existsb (pair_eqb x) l.
+Definition removes_p (xs l : list (N * N)) : list (N * N) := filter (fun y => negb (mem_p y xs)) l.
 
 Definition alloc_of (os : list out) : list conn :=
   flat_map (fun o => match o with Ret r => if RET_ALLOC <=? r then [r - RET_ALLOC] else [] | _ => [] end) os.
+
+(* a dial step starts at most one attempt: its id is the id of the first open / dial call *)
+Definition first1 {A} (l : list A) : list A := match l with x :: _ => [x] | [] => [] end.
+
+(* the peer a dial request names *)
+Definition ev_target (e : ev) : option peer :=
+  match e with
+  | CmdDialPeer p _ _ | HDialPeer p _ _ _ | CmdDialAddr p _ _ => Some p
+  | CmdDialShape a | HDialAddr a _ =>
+      match dial_shape LISTEN a with SvTcp p | SvWs p => Some p | SvRefuse _ => None end
+  | _ => None
+  end.
 
 Definition gstep (e : ev) (os : list out) (g : ghost) : ghost :=
   let opens := flat_map out_open os in
@@ -50,59 +67,67 @@ Definition gstep (e : ev) (os : list out) (g : ghost) : ghost :=
   let rejects := flat_map out_reject os in
   let terms := flat_map out_term os in
   let reps := flat_map out_rep os in
-  let answered_open := match e with TrOpened c _ | TrOpenFailure c _ => [c] | _ => [] end in
-  let answered_neg := match e with TrDialFailure c _ | TrEstablished _ c false _ => [c] | _ => [] end in
-  let new_att := match e with
-                 | CmdDialPeer p _ | CmdDialAddr p _ =>
-                     if ret_ok os then map (fun c => (c, p)) (opens ++ dialnegs) else []
-                 | CmdDialShape a =>
-                     (* the peer dialled is the one named by the address *)
-                     match dial_shape LISTEN a with
-                     | SvTcp p => if ret_ok os then map (fun c => (c, p)) (opens ++ dialnegs) else []
-                     | _ => []
-                     end
-                 | _ => [] end in
-  mkG (opens ++ removes (answered_open ++ cancels) (g_open g))
+  let answered_open := match e with TrOpened c t _ | TrOpenFailure c t _ => [(c, t)] | _ => [] end in
+  let answered_neg := match e with TrDialFailure c _ _ | TrEstablished _ c _ false _ => [c] | _ => [] end in
+  let new_att := match ev_target e with
+                 | Some p => if ret_ok os then map (fun c => (c, p)) (first1 (map fst opens ++ dialnegs)) else []
+                 | None => [] end in
+  mkG (opens ++ removes_p (answered_open ++ cancels) (g_open g))
       (dialnegs ++ removes answered_neg (g_neg g))
       (new_att ++ g_att g)
       (terms ++ g_done g)
-      (match e with TrEstablished _ _ _ _ => cancels | _ => [] end ++ g_super g)
-      (match e with TrEstablished _ c false _ => if mem c rejects then [c] else [] | _ => [] end ++ g_limrej g)
+      (match e with TrEstablished _ _ _ _ _ => first1 (map fst cancels) | _ => [] end ++ g_super g)
+      (match e with TrEstablished _ c _ false _ => if mem c rejects then [c] else [] | _ => [] end ++ g_limrej g)
       (match e with AllocConn => alloc_of os | _ => [] end ++
-       match e with TrEstablished _ c true _ => removes [c] (g_inb g) | _ => g_inb g end)
+       match e with TrEstablished _ c _ true _ => removes [c] (g_inb g) | _ => g_inb g end)
       (reps ++ g_rep g).
 
-(* The transport contract and the "protocols are alive" assumption: which events can happen. *)
-Definition feas (m : mgr) (g : ghost) (e : ev) : Prop :=
+(* dial(p) gets as far as selecting addresses *)
+Definition selects (L : limits) (m : mgr) (p : peer) : bool :=
+  negb (limit_reached (max_out L) (outs m)) && negb (p =? LOCAL) &&
+  match can_dial (state_of m p) with GateOk => negb (is_nil (addrs_of m p)) | _ => false end.
+
+(* The transport contract and the "protocols are alive" assumption: which events can happen.
+   Transport events come from installed transports; open()/dial()/negotiate()/accept() succeed;
+   the transports a dial spans are a choice the address book allows (choice_ok). *)
+Definition feas (L : limits) (m : mgr) (g : ghost) (e : ev) : Prop :=
   match e with
-  | CmdDialPeer _ f | CmdDialAddr _ f => f = false              (* open()/dial() succeed *)
-  | CmdAddAddr _ => True
-  | TrDialFailure c pa => In c (g_neg g) /\ lookup c (g_att g) = Some pa
-  | TrOpened c f => f = false /\ In c (g_open g)                (* negotiate() succeeds *)
-  | TrOpenFailure c pa => In c (g_open g) /\ lookup c (g_att g) = Some pa
-  | TrEstablished p c lst f =>
-      f = false /\                                              (* accept() succeeds *)
+  | CmdDialPeer p ts fl | HDialPeer p ts fl _ =>
+      fl = [] /\ (selects L m p = true -> choice_ok L m p ts = true)
+  | CmdDialAddr _ _ f => f = false                              (* dial() succeeds *)
+  | CmdAddAddr _ _ => True
+  | TrDialFailure c t pa => installed L t = true /\ In c (g_neg g) /\ lookup c (g_att g) = Some pa
+  | TrOpened c t f => f = false /\ installed L t = true /\ In (c, t) (g_open g)   (* negotiate() succeeds *)
+  | TrOpenFailure c t pa => installed L t = true /\ In (c, t) (g_open g) /\ lookup c (g_att g) = Some pa
+  | TrEstablished p c t lst f =>
+      f = false /\ installed L t = true /\                        (* accept() succeeds *)
       if lst then In c (g_inb g) else In c (g_neg g) /\ lookup c (g_att g) = Some p
-  | TrPendingInbound _ => True
+  | TrPendingInbound _ _ => True
   | AcceptDone c ok => ok = true /\ In c (keys (accepting m))    (* protocols are alive *)
   | Closed _ _ => True
   | AllocConn => True
   | CmdDialShape _ => True      (* any multiaddress may be handed to the dial API *)
+  | HDialAddr _ _ => True
   end.
 
-Definition owed (g : ghost) (c : conn) : Prop := In c (g_open g) \/ In c (g_neg g).
+Definition owed (g : ghost) (c : conn) : Prop := (exists t, In (c, t) (g_open g)) \/ In c (g_neg g).
 
-Record LInv (m : mgr) (g : ghost) : Prop := {
-  (* every pending attempt is owed by the transport, belongs to the peer that dialled it and is
-     that peer's dial record; it is in the opening phase exactly when the peer is Opening *)
+(* the transports a peer in the opening phase still waits for *)
+Definition opening_on (s : pstate) (t : tr) : Prop :=
+  match s with Opening _ ts => In t ts | _ => False end.
+
+Record LInv (L : limits) (m : mgr) (g : ghost) : Prop := {
+  (* every pending attempt is owed by the transports, belongs to the peer that dialled it and is
+     that peer's dial record; the transports that still owe an open answer for it are exactly the
+     transport set of the peer's Opening state *)
   li_pending : forall c p, lookup c (pending m) = Some p ->
       owed g c /\ lookup c (g_att g) = Some p /\ dial_record (state_of m p) = Some c /\
-      (In c (g_open g) <-> state_of m p = Opening c);
+      (forall t, In (c, t) (g_open g) <-> opening_on (state_of m p) t);
   (* everything owed is pending *)
   li_owed : forall c, owed g c -> exists p, lookup c (pending m) = Some p;
   (* a dial record is always a pending attempt of that peer: nobody waits for nothing *)
   li_record : forall p c, dial_record (state_of m p) = Some c -> lookup c (pending m) = Some p;
-  li_open_neg : forall c, In c (g_open g) -> ~ In c (g_neg g);
+  li_open_neg : forall c t, In (c, t) (g_open g) -> ~ In c (g_neg g);
   (* ids are fresh *)
   li_fresh : forall c, (owed g c \/ In c (keys (g_att g)) \/ In c (g_inb g) \/ In c (g_done g) \/
                         In c (keys (accepting m)) \/ In c (g_super g)) -> c < next_conn m;
@@ -118,7 +143,12 @@ Record LInv (m : mgr) (g : ghost) : Prop := {
       owed g c \/ In c (g_done g) \/ In c (g_super g) \/ In c (g_limrej g) \/ In c (keys (accepting m));
   (* a superseded attempt is answered by a connection with the same peer *)
   li_super : forall c p, In c (g_super g) -> lookup c (g_att g) = Some p ->
-      In p (g_rep g) \/ exists c' b, lookup c' (accepting m) = Some (p, b)
+      In p (g_rep g) \/ exists c' b, lookup c' (accepting m) = Some (p, b);
+  (* a peer in the opening phase waits for at least one transport, and only for installed ones *)
+  li_opening_ne : forall p c ts, state_of m p = Opening c ts -> ts <> [];
+  li_open_inst : forall c t, In (c, t) (g_open g) -> installed L t = true;
+  (* the address book only holds addresses of installed transports *)
+  li_kinds : KInv L m
 }.
 
 (* ---------- helpers ---------- *)
@@ -134,6 +164,28 @@ Proof.
   - intros [H1 H2]. split; [assumption|]. intros Hin. apply mem_in in Hin. rewrite Hin in H2. discriminate.
   - intros [H1 H2]. split; [assumption|]. destruct (mem x xs) eqn:E; [|reflexivity].
     apply mem_in in E. contradiction.
+Qed.
+
+Lemma mem_p_in x l : mem_p x l = true <-> In x l.
+Proof.
+  unfold mem_p. rewrite existsb_exists. split.
+  - intros (y & Hy & E). unfold pair_eqb in E. destruct x as [a b], y as [a' b']. cbn [fst snd] in E.
+    assert (a = a') by lia. assert (b = b') by lia. now subst.
+  - intros H. exists x. split; [assumption|]. unfold pair_eqb. lia.
+Qed.
+
+Lemma removes_p_nil l : removes_p [] l = l.
+Proof.
+  unfold removes_p. induction l as [|h t IH]; [reflexivity|].
+  cbn [filter]. unfold mem_p at 1. cbn [existsb negb]. f_equal. exact IH.
+Qed.
+
+Lemma in_removes_p x xs l : In x (removes_p xs l) <-> In x l /\ ~ In x xs.
+Proof.
+  unfold removes_p. rewrite filter_In. split.
+  - intros [H1 H2]. split; [assumption|]. intros Hin. apply mem_p_in in Hin. rewrite Hin in H2. discriminate.
+  - intros [H1 H2]. split; [assumption|]. destruct (mem_p x xs) eqn:E; [|reflexivity].
+    apply mem_p_in in E. contradiction.
 Qed.
 
 Lemma keys_insert_key {A} k (v : A) l x : In x (keys (insert_key k v l)) <-> x = k \/ (In x (keys l) /\ x <> k).
@@ -155,39 +207,51 @@ Proof.
 Qed.
 
 Lemma dial_record_on_failure s c :
-  dial_record s = Some c -> s <> Opening c -> dial_record (st_on_dial_failure s c) = None.
+  dial_record s = Some c -> (forall ts, s <> Opening c ts) -> dial_record (st_on_dial_failure s c) = None.
 Proof.
-  destruct s as [r [[e|e]|]|d|d|[d|]]; cbn [dial_record]; try discriminate; intros [= ->] Hne;
+  destruct s as [r [[e|e]|]|d ts|d|[d|]]; cbn [dial_record]; try discriminate; intros [= ->] Hne;
     cbn [st_on_dial_failure]; try (assert (c =? c = true) as -> by lia); cbn [dial_record]; try reflexivity.
-  congruence.
+  exfalso. eapply Hne. reflexivity.
 Qed.
 
 Lemma dial_record_on_failure_other s c d :
   dial_record s = Some d -> d <> c -> st_on_dial_failure s c = s.
 Proof.
-  destruct s as [r [[e|e]|]|o|o|[o|]]; cbn [dial_record]; try discriminate; intros [= ->] Hne;
+  destruct s as [r [[e|e]|]|o ts|o|[o|]]; cbn [dial_record]; try discriminate; intros [= ->] Hne;
     cbn [st_on_dial_failure]; try (assert (d =? c = false) as -> by lia); reflexivity.
 Qed.
 
 Lemma dial_record_on_failure_none s c : dial_record s = None -> st_on_dial_failure s c = s.
 Proof.
-  destruct s as [r [[e|e]|]|o|o|[o|]]; cbn [dial_record]; try discriminate; reflexivity.
+  destruct s as [r [[e|e]|]|o ts|o|[o|]]; cbn [dial_record]; try discriminate; reflexivity.
 Qed.
 
-Lemma opening_record s c : s = Opening c -> dial_record s = Some c.
-Proof. now intros ->. Qed.
+Lemma not_opening_on s : (forall d ts, s <> Opening d ts) -> forall t, ~ opening_on s t.
+Proof. intros H t. destruct s; cbn [opening_on]; try tauto. exfalso. eapply H. reflexivity. Qed.
 
-(* changing only fields the invariant does not read (address book, limits) or bumping the counter *)
-Lemma linv_frame m m' g :
+(* changing only fields the invariant does not read (limits, opening errors) or bumping the counter *)
+Lemma linv_frame L m m' g :
   pending m' = pending m -> peers m' = peers m -> accepting m' = accepting m ->
-  next_conn m <= next_conn m' -> LInv m g -> LInv m' g.
+  next_conn m <= next_conn m' -> KInv L m' -> LInv L m g -> LInv L m' g.
 Proof.
-  intros Hp Hs Ha Hn [P O R ON F INB D DN AN AS AC SU].
+  intros Hp Hs Ha Hn HK [P O R ON F INB D DN AN AS AC SU NE OI KI].
   assert (Hst : forall q, state_of m' q = state_of m q) by (intros q; now apply state_of_peers).
   split; rewrite ?Hp, ?Ha; try assumption.
   - intros c p Hl. rewrite Hst. auto.
   - intros p c Hd. rewrite Hst in Hd. auto.
   - intros c Hc. specialize (F c Hc). lia.
+  - intros p c ts Hs'. rewrite Hst in Hs'. eauto.
+Qed.
+
+Lemma linv_add_addr L m g p a :
+  installed L (kind_of a) = true -> LInv L m g -> LInv L (add_addr m p a) g.
+Proof.
+  intros Hi I. eapply linv_frame; [| | | | |exact I].
+  - apply add_addr_pending.
+  - apply add_addr_peers.
+  - apply add_addr_accepting.
+  - rewrite add_addr_next_conn. lia.
+  - apply kinv_add_addr; [apply (li_kinds _ _ _ I) | exact Hi].
 Qed.
 
 (* a step that emits nothing the ghost reads leaves it unchanged *)
@@ -197,35 +261,43 @@ Definition quiet (os : list out) : Prop :=
 
 Lemma gstep_quiet_cmd e os g :
   quiet os ->
-  match e with CmdDialPeer _ _ | CmdDialAddr _ _ | CmdAddAddr _ | TrPendingInbound _ | Closed _ _
-             | CmdDialShape _ => True | _ => False end ->
+  match e with CmdDialPeer _ _ _ | CmdDialAddr _ _ _ | CmdAddAddr _ _ | TrPendingInbound _ _ | Closed _ _
+             | CmdDialShape _ | HDialPeer _ _ _ _ | HDialAddr _ _ => True | _ => False end ->
   gstep e os g = g.
 Proof.
   intros (H1 & H2 & H3 & H4 & H5 & H6 & H7) He. unfold gstep. rewrite H1, H2, H3, H5, H6.
   destruct g as [go gn ga gd gs gl gi gr].
-  destruct e; try contradiction; cbn [app g_open g_neg g_att g_done g_super g_limrej g_inb g_rep];
-    rewrite ?removes_nil; try (destruct (dial_shape LISTEN a)); try (destruct (ret_ok os)); reflexivity.
+  destruct e; try contradiction; cbn [app map first1 g_open g_neg g_att g_done g_super g_limrej g_inb g_rep];
+    rewrite ?removes_nil, ?removes_p_nil; try (destruct (ev_target _)); try (destruct (ret_ok os)); reflexivity.
 Qed.
 
-Lemma ret_ok_1 c : ret_ok [CallOpen c; Ret RET_OK] = true. Proof. reflexivity. Qed.
-Lemma ret_ok_2 c : ret_ok [CallDial c; Ret RET_OK] = true. Proof. reflexivity. Qed.
-
 Lemma can_dial_ok s : can_dial s = GateOk -> s = Disconnected None.
-Proof. destruct s as [r sc|d|d|[d|]]; cbn [can_dial]; try discriminate; reflexivity. Qed.
+Proof. destruct s as [r sc|d ts|d|[d|]]; cbn [can_dial]; try discriminate; reflexivity. Qed.
+
+Lemma quiet_ret r : r < RET_ALLOC -> quiet [Ret r].
+Proof.
+  intros H. unfold quiet, alloc_of. cbn [flat_map app out_open out_dialneg out_cancel out_reject out_term out_rep].
+  assert (RET_ALLOC <=? r = false) as -> by lia. repeat split.
+Qed.
+
+Lemma quiet_nil : quiet [].
+Proof. unfold quiet, alloc_of. cbn. repeat split. Qed.
 
 (* registering a fresh attempt c for a peer p without dial record: the common part of
-   dial(peer) and dial_address *)
-Lemma linv_new_attempt m g p c (st : pstate) (inopen : bool) go' gn' :
-  LInv m g -> c = next_conn m -> dial_record (state_of m p) = None ->
-  dial_record st = Some c -> (inopen = true <-> st = Opening c) ->
-  go' = (if inopen then c :: g_open g else g_open g) ->
-  gn' = (if inopen then g_neg g else c :: g_neg g) ->
+   dial(peer) and dial_address. `opens`: the open obligations created (empty for dial_address) *)
+Lemma linv_new_attempt L m g p c (st : pstate) (opens : list (conn * tr)) gn' :
+  LInv L m g -> c = next_conn m -> dial_record (state_of m p) = None ->
+  dial_record st = Some c ->
+  (forall x, In x opens -> fst x = c /\ installed L (snd x) = true) ->
+  (forall t, In (c, t) opens <-> opening_on st t) ->
+  (forall d ts, st = Opening d ts -> ts <> []) ->
+  gn' = (if is_nil opens then c :: g_neg g else g_neg g) ->
   forall m', pending m' = insert_key c p (pending m) ->
   (forall q, state_of m' q = if q =? p then st else state_of m q) ->
-  accepting m' = accepting m -> next_conn m' = c + 1 ->
-  LInv m' (mkG go' gn' ((c, p) :: g_att g) (g_done g) (g_super g) (g_limrej g) (g_inb g) (g_rep g)).
+  accepting m' = accepting m -> next_conn m' = c + 1 -> KInv L m' ->
+  LInv L m' (mkG (opens ++ g_open g) gn' ((c, p) :: g_att g) (g_done g) (g_super g) (g_limrej g) (g_inb g) (g_rep g)).
 Proof.
-  intros [P O R ON F INB D DN AN AS AC SU] Hc Hnone Hst Hio -> -> m' Hp Hs Ha Hn.
+  intros [P O R ON F INB D DN AN AS AC SU NE OI KI] Hc Hnone Hst Hops Hio Hne -> m' Hp Hs Ha Hn HK.
   assert (Hfresh : forall x, (owed g x \/ In x (keys (g_att g)) \/ In x (g_inb g) \/ In x (g_done g) \/
                               In x (keys (accepting m)) \/ In x (g_super g)) -> x <> c).
   { intros x Hx. specialize (F x Hx). lia. }
@@ -233,35 +305,60 @@ Proof.
   { intros x q Hl. destruct (P _ _ Hl) as (Ho & _ & Hd & _). split.
     - apply Hfresh. now left.
     - intros ->. congruence. }
-  assert (Howed' : forall x, owed (mkG (if inopen then c :: g_open g else g_open g)
-                                     (if inopen then g_neg g else c :: g_neg g)
-                                     ((c, p) :: g_att g) (g_done g) (g_super g) (g_limrej g) (g_inb g) (g_rep g)) x
-                             <-> x = c \/ owed g x).
-  { intros x. unfold owed. cbn [g_open g_neg]. destruct inopen; cbn [In]; intuition. }
-  split; cbn [g_att g_done g_super g_limrej g_inb g_rep]; rewrite ?Hp, ?Ha, ?Hn.
-  - intros x q Hl. rewrite lookup_insert_key in Hl. rewrite Howed', Hs. cbn [lookup g_open].
+  match goal with |- LInv _ _ ?x => set (g' := x) end.
+  assert (Hopen_c : forall t, In (c, t) (g_open g') <-> In (c, t) opens).
+  { intros t. cbn [g' g_open]. rewrite in_app_iff. split; [|now left].
+    intros [H|H]; [exact H|]. exfalso. apply (Hfresh c); [left; left; eauto | reflexivity]. }
+  assert (Hopen_o : forall x t, x <> c -> (In (x, t) (g_open g') <-> In (x, t) (g_open g))).
+  { intros x t Hx. cbn [g' g_open]. rewrite in_app_iff. split; [|now right].
+    intros [H|H]; [|exact H]. destruct (Hops _ H) as [E _]. cbn [fst] in E. congruence. }
+  assert (Hnonempty : is_nil opens = false \/ (opens = [] /\ is_nil opens = true)).
+  { destruct opens; [right; split; reflexivity | now left]. }
+  assert (Howed' : forall x, owed g' x <-> x = c \/ owed g x).
+  { intros x. unfold owed. destruct (N.eq_dec x c) as [->|Hx].
+    - split; [now left|]. intros _.
+      destruct Hnonempty as [Hn1|[Hn1 Hn2]].
+      + destruct opens as [|[a b] r]; [discriminate|]. left. exists b.
+        destruct (Hops (a, b) (or_introl eq_refl)) as [E _]. cbn [fst] in E. subst a.
+        apply Hopen_c. now left.
+      + right. cbn [g' g_neg]. rewrite Hn2. now left.
+    - split.
+      + intros [[t Ht]|Hn2].
+        * right. left. exists t. now apply (Hopen_o x t Hx).
+        * right. right. cbn [g' g_neg] in Hn2. destruct (is_nil opens); [|exact Hn2].
+          destruct Hn2 as [E|Hn2]; [congruence | exact Hn2].
+      + intros [E|[[t Ht]|Hn2]]; [congruence | |].
+        * left. exists t. now apply (Hopen_o x t Hx).
+        * right. cbn [g' g_neg]. destruct (is_nil opens); [now right | exact Hn2]. }
+  split; rewrite ?Hp, ?Ha, ?Hn;
+    change (g_att g') with ((c, p) :: g_att g); change (g_done g') with (g_done g);
+    change (g_super g') with (g_super g); change (g_limrej g') with (g_limrej g);
+    change (g_inb g') with (g_inb g); change (g_rep g') with (g_rep g).
+  - intros x q Hl. rewrite lookup_insert_key in Hl. rewrite Howed', Hs. cbn [lookup].
     destruct (x =? c) eqn:E.
     + injection Hl as <-. assert (x = c) by lia. subst x.
       assert (c =? c = true) as -> by lia. assert (p =? p = true) as -> by lia.
       repeat split; auto.
-      * intros Hin. destruct inopen; cbn [In] in *; [now apply Hio | ].
-        exfalso. apply (Hfresh c); [left; now left | reflexivity].
-      * intros Hop. destruct inopen; [now left|]. destruct Hio as [_ Hio2]. specialize (Hio2 Hop). discriminate.
+      * intros Hin. apply Hio. now apply Hopen_c.
+      * intros Hop. apply Hopen_c. now apply Hio.
     + destruct (Hpend_ne _ _ Hl) as [Hne1 Hne2].
       assert (c =? x = false) as -> by lia. assert (q =? p = false) as -> by lia.
       destruct (P _ _ Hl) as (Ho & Hat & Hd & Hiff). repeat split; auto.
-      * intros Hin. apply Hiff. destruct inopen; [|assumption]. destruct Hin as [Hin|Hin]; [lia | assumption].
-      * intros Hop. apply Hiff in Hop. destruct inopen; [now right | assumption].
+      * intros Hin. apply Hiff. now apply (Hopen_o x t Hne1).
+      * intros Hop. apply (Hopen_o x t Hne1). now apply Hiff.
   - intros x Hx. apply Howed' in Hx. rewrite lookup_insert_key. destruct (x =? c) eqn:E; [eauto|].
     destruct Hx as [->|Hx]; [lia|]. auto.
   - intros q x Hd. rewrite Hs in Hd. rewrite lookup_insert_key. destruct (q =? p) eqn:E.
     + assert (q = p) by lia. subst q. rewrite Hst in Hd. injection Hd as <-.
       assert (c =? c = true) as -> by lia. reflexivity.
-    + specialize (R _ _ Hd). destruct (Hpend_ne _ _ R) as [Hne _].
+    + specialize (R _ _ Hd). destruct (Hpend_ne _ _ R) as [Hne1 _].
       assert (x =? c = false) as -> by lia. exact R.
-  - cbn [g_open g_neg]. intros x Hin. destruct inopen; cbn [In] in *.
-    + destruct Hin as [Heq|Hin]; [|auto]. subst x. intros Hn2. apply (Hfresh c); [left; now right | reflexivity].
-    + intros [Heq|Hn2]; [|now apply (ON x)]. subst x. apply (Hfresh c); [left; now left | reflexivity].
+  - intros x t Hin. destruct (N.eq_dec x c) as [->|Hx].
+    + cbn [g' g_neg]. apply Hopen_c in Hin.
+      destruct Hnonempty as [Hn1|[Hn1 Hn2]]; [|rewrite Hn1 in Hin; destruct Hin].
+      rewrite Hn1. intros Hn2. apply (Hfresh c); [left; now right | reflexivity].
+    + apply (Hopen_o x t Hx) in Hin. cbn [g' g_neg]. destruct (is_nil opens); [|now apply (ON x t)].
+      intros [E|Hn2]; [congruence | now apply (ON x t)].
   - intros x Hx. rewrite Howed' in Hx. cbn [keys map fst In] in Hx.
     assert (x = c \/ x < next_conn m) as [->|Hlt]; [|lia|lia].
     destruct Hx as [[->|Hx]|[[<-|Hx]|Hx]]; auto; right; apply F; intuition.
@@ -279,58 +376,125 @@ Proof.
   - intros x q Hx Hl. cbn [lookup] in Hl. destruct (c =? x) eqn:E.
     + exfalso. apply (Hfresh x); [do 5 right; exact Hx | lia].
     + eauto.
+  - intros q d ts Hq. rewrite Hs in Hq. destruct (q =? p); [eapply Hne; exact Hq | eapply NE; exact Hq].
+  - intros x t Hin. cbn [g' g_open] in Hin. apply in_app_iff in Hin. destruct Hin as [Hin|Hin]; [|eauto].
+    destruct (Hops _ Hin) as [_ Hi]. exact Hi.
+  - exact HK.
 Qed.
 
-Lemma quiet_ret r : r < RET_ALLOC -> quiet [Ret r].
+(* ---------- what the ghost reads from a list of open / cancel calls ---------- *)
+Lemma fm_open_opens c ts : flat_map out_open (map (CallOpen c) ts) = map (pair c) ts.
+Proof. induction ts as [|t r IH]; cbn [map flat_map out_open app]; [reflexivity | now rewrite IH]. Qed.
+Lemma fm_dialneg_opens c ts : flat_map out_dialneg (map (CallOpen c) ts) = [].
+Proof. induction ts as [|t r IH]; cbn [map flat_map out_dialneg app]; [reflexivity | exact IH]. Qed.
+Lemma fm_cancel_opens c ts : flat_map out_cancel (map (CallOpen c) ts) = [].
+Proof. induction ts as [|t r IH]; cbn [map flat_map out_cancel app]; [reflexivity | exact IH]. Qed.
+Lemma fm_reject_opens c ts : flat_map out_reject (map (CallOpen c) ts) = [].
+Proof. induction ts as [|t r IH]; cbn [map flat_map out_reject app]; [reflexivity | exact IH]. Qed.
+Lemma fm_term_opens c ts : flat_map out_term (map (CallOpen c) ts) = [].
+Proof. induction ts as [|t r IH]; cbn [map flat_map out_term app]; [reflexivity | exact IH]. Qed.
+Lemma fm_rep_opens c ts : flat_map out_rep (map (CallOpen c) ts) = [].
+Proof. induction ts as [|t r IH]; cbn [map flat_map out_rep app]; [reflexivity | exact IH]. Qed.
+
+Lemma fm_open_cancels c ts : flat_map out_open (map (CallCancel c) ts) = [].
+Proof. induction ts as [|t r IH]; cbn [map flat_map out_open app]; [reflexivity | exact IH]. Qed.
+Lemma fm_dialneg_cancels c ts : flat_map out_dialneg (map (CallCancel c) ts) = [].
+Proof. induction ts as [|t r IH]; cbn [map flat_map out_dialneg app]; [reflexivity | exact IH]. Qed.
+Lemma fm_cancel_cancels c ts : flat_map out_cancel (map (CallCancel c) ts) = map (pair c) ts.
+Proof. induction ts as [|t r IH]; cbn [map flat_map out_cancel app]; [reflexivity | now rewrite IH]. Qed.
+Lemma fm_reject_cancels c ts : flat_map out_reject (map (CallCancel c) ts) = [].
+Proof. induction ts as [|t r IH]; cbn [map flat_map out_reject app]; [reflexivity | exact IH]. Qed.
+Lemma fm_term_cancels c ts : flat_map out_term (map (CallCancel c) ts) = [].
+Proof. induction ts as [|t r IH]; cbn [map flat_map out_term app]; [reflexivity | exact IH]. Qed.
+Lemma fm_rep_cancels c ts : flat_map out_rep (map (CallCancel c) ts) = [].
+Proof. induction ts as [|t r IH]; cbn [map flat_map out_rep app]; [reflexivity | exact IH]. Qed.
+
+Lemma ret_ok_opens c ts : ret_ok (map (CallOpen c) ts ++ [Ret RET_OK]) = true.
 Proof.
-  intros H. unfold quiet, alloc_of. cbn [flat_map app out_open out_dialneg out_cancel out_reject out_term out_rep].
-  assert (RET_ALLOC <=? r = false) as -> by lia. repeat split.
+  unfold ret_ok. rewrite existsb_app. cbn [existsb]. assert (RET_OK =? RET_OK = true) as -> by reflexivity.
+  cbn [orb]. now rewrite orb_true_r.
 Qed.
 
-Lemma quiet_nil : quiet [].
-Proof. unfold quiet, alloc_of. cbn. repeat split. Qed.
+Lemma map_fst_pairs (c : conn) (ts : list tr) : map fst (map (pair c) ts) = map (fun _ => c) ts.
+Proof. rewrite map_map. reflexivity. Qed.
 
-Lemma linv_dial_peer L m g p :
-  LInv m g ->
-  LInv (fst (do_dial_peer L m p false)) (gstep (CmdDialPeer p false) (snd (do_dial_peer L m p false)) g).
+Lemma in_map_pair (c x : conn) (t : tr) ts : In (x, t) (map (pair c) ts) <-> x = c /\ In t ts.
 Proof.
-  intros I. unfold do_dial_peer.
-  destruct (limit_reached (max_out L) (outs m)).
+  rewrite in_map_iff. split.
+  - intros (y & E & Hy). injection E as <- <-. auto.
+  - intros [-> H]. exists t. auto.
+Qed.
+
+Lemma selects_ok L m p :
+  limit_reached (max_out L) (outs m) = false -> (p =? LOCAL) = false ->
+  can_dial (state_of m p) = GateOk -> is_nil (addrs_of m p) = false -> selects L m p = true.
+Proof. intros H1 H2 H3 H4. unfold selects. now rewrite H1, H2, H3, H4. Qed.
+
+Lemma linv_dial_peer L m g p ts :
+  LInv L m g -> (selects L m p = true -> choice_ok L m p ts = true) ->
+  LInv L (fst (do_dial_peer L m p ts [])) (gstep (CmdDialPeer p ts []) (snd (do_dial_peer L m p ts [])) g).
+Proof.
+  intros I Hsel. unfold do_dial_peer.
+  destruct (limit_reached (max_out L) (outs m)) eqn:El.
   { cbn [fst snd]. rewrite gstep_quiet_cmd; [exact I | apply quiet_ret; reflexivity | exact Logic.I]. }
-  destruct (p =? LOCAL).
+  destruct (p =? LOCAL) eqn:Ep.
   { cbn [fst snd]. rewrite gstep_quiet_cmd; [exact I | apply quiet_ret; reflexivity | exact Logic.I]. }
   destruct (can_dial (state_of m p)) eqn:Eg;
     try (cbn [fst snd]; rewrite gstep_quiet_cmd; [exact I | apply quiet_ret; reflexivity | exact Logic.I]).
-  destruct (negb (mem p (known m))).
+  destruct (is_nil (addrs_of m p)) eqn:En.
   { cbn [fst snd]. rewrite gstep_quiet_cmd; [exact I | apply quiet_ret; reflexivity | exact Logic.I]. }
-  cbn [fst snd]. apply can_dial_ok in Eg.
-  unfold gstep. rewrite ret_ok_1.
-  cbn [flat_map app out_open out_dialneg out_cancel out_reject out_term out_rep map]. rewrite !removes_nil.
-  eapply (linv_new_attempt m g p (next_conn m) (Opening (next_conn m)) true); try reflexivity; try exact I.
+  specialize (Hsel (selects_ok _ _ _ El Ep Eg En)).
+  pose proof (li_kinds _ _ _ I) as K.
+  destruct (choice_ok_facts _ _ _ _ Hsel) as [Hne _].
+  pose proof (choice_installed _ _ _ _ K Hsel) as Hinst.
+  rewrite (open_calls_all L (next_conn m) ts Hinst). cbn [fst snd]. apply can_dial_ok in Eg.
+  unfold gstep. cbn [ev_target]. rewrite ret_ok_opens.
+  rewrite !flat_map_app, ?fm_open_opens, ?fm_dialneg_opens, ?fm_cancel_opens, ?fm_reject_opens, ?fm_term_opens, ?fm_rep_opens.
+  cbn [flat_map app out_open out_dialneg out_cancel out_reject out_term out_rep]. rewrite !app_nil_r.
+  rewrite removes_nil, removes_p_nil, map_fst_pairs.
+  match goal with |- LInv _ _ (mkG _ _ (?x ++ _) _ _ _ _ _) =>
+    assert (Hfirst : x = [(next_conn m, p)]) by (destruct ts; [congruence | reflexivity]); rewrite Hfirst end.
+  cbn [app].
+  eapply (linv_new_attempt L m g p (next_conn m) (Opening (next_conn m) ts) (map (pair (next_conn m)) ts));
+    try reflexivity; try exact I.
   - now rewrite Eg.
-  - split; reflexivity.
+  - intros [x t] Hin. apply in_map_pair in Hin. destruct Hin as [-> Ht]. split; [reflexivity | now apply Hinst].
+  - intros t. rewrite in_map_pair. cbn [opening_on]. tauto.
+  - intros d ts' [= _ <-]. exact Hne.
+  - destruct ts; [congruence | reflexivity].
   - intros q. rewrite so_pending, state_of_set_state, so_bump. reflexivity.
+  - eapply kinv_frame; [|exact K]. reflexivity.
 Qed.
 
-Lemma linv_dial_addr L m g p :
-  LInv m g ->
-  LInv (fst (do_dial_addr L m p false)) (gstep (CmdDialAddr p false) (snd (do_dial_addr L m p false)) g).
+Lemma linv_dial_addr L m g p t a :
+  LInv L m g -> kind_of a = t ->
+  LInv L (fst (do_dial_addr L m p t a false)) (gstep (CmdDialAddr p t false) (snd (do_dial_addr L m p t a false)) g).
 Proof.
-  intros I. unfold do_dial_addr.
-  destruct (limit_reached (max_out L) (outs m)).
-  { cbn [fst snd]. rewrite gstep_quiet_cmd; [exact I | apply quiet_ret; reflexivity | exact Logic.I]. }
-  assert (I0 : LInv (set_known (bump_conn m) p) g).
-  { eapply linv_frame; [| | | |exact I]; try reflexivity. cbn [set_known bump_conn next_conn]. lia. }
-  rewrite so_known, so_bump.
+  intros I Hk. unfold do_dial_addr.
+  destruct (installed L t) eqn:Ei; cbn [negb].
+  2:{ cbn [fst snd]. rewrite gstep_quiet_cmd; [exact I | apply quiet_ret; reflexivity | exact Logic.I]. }
+  assert (Ib : LInv L (bump_conn m) g).
+  { eapply linv_frame; [| | | | |exact I]; try reflexivity.
+    - cbn [bump_conn next_conn]. lia.
+    - eapply kinv_frame; [|exact (li_kinds _ _ _ I)]. reflexivity. }
+  assert (I0 : LInv L (add_addr (bump_conn m) p a) g) by (apply linv_add_addr; [now rewrite Hk | exact Ib]).
+  rewrite so_add_addr, so_bump.
   destruct (can_dial (state_of m p)) eqn:Eg;
     try (cbn [fst snd]; rewrite gstep_quiet_cmd; [exact I0 | apply quiet_ret; reflexivity | exact Logic.I]).
   cbn [fst snd]. apply can_dial_ok in Eg.
-  unfold gstep. rewrite ret_ok_2.
-  cbn [flat_map app out_open out_dialneg out_cancel out_reject out_term out_rep map]. rewrite !removes_nil.
-  eapply (linv_new_attempt m g p (next_conn m) (Dialing (next_conn m)) false); try reflexivity; try exact I.
+  unfold gstep. cbn [ev_target ret_ok existsb].
+  assert (RET_OK =? RET_OK = true) as -> by reflexivity. cbn [orb].
+  cbn [flat_map app out_open out_dialneg out_cancel out_reject out_term out_rep map first1 fst].
+  rewrite !removes_nil, removes_p_nil.
+  eapply (linv_new_attempt L m g p (next_conn m) (Dialing (next_conn m)) []); try reflexivity; try exact I.
   - now rewrite Eg.
-  - split; discriminate.
-  - intros q. rewrite so_pending, state_of_set_state, so_known, so_bump. reflexivity.
+  - intros x [].
+  - intros d ts. discriminate.
+  - cbn [set_pending pending set_state]. rewrite ?add_addr_pending; reflexivity.
+  - intros q. rewrite so_pending, state_of_set_state, so_add_addr, so_bump. reflexivity.
+  - cbn [set_pending set_state accepting]. rewrite ?add_addr_accepting; reflexivity.
+  - cbn [set_pending set_state next_conn]. rewrite ?add_addr_next_conn; reflexivity.
+  - eapply kinv_frame; [|exact (li_kinds _ _ _ I0)]. reflexivity.
 Qed.
 
 Lemma removes_notin x l : ~ In x l -> removes [x] l = l.
@@ -348,38 +512,49 @@ Qed.
 
 (* an attempt c of peer p concludes without connection: its pending entry, its obligations and
    the peer's dial record disappear; it is either named by a terminal output or recorded as
-   rejected by the limit *)
-Lemma linv_conclude m g c p st' (d : bool) m' :
-  LInv m g -> lookup c (pending m) = Some p ->
+   rejected by the limit. go' / gn': the obligations without those of c *)
+Lemma linv_conclude L m g c p st' (d : bool) m' go' gn' :
+  LInv L m g -> lookup c (pending m) = Some p ->
+  (forall x, In x go' <-> In x (g_open g) /\ fst x <> c) ->
+  (forall x, In x gn' <-> In x (g_neg g) /\ x <> c) ->
   pending m' = remove_key c (pending m) ->
   (forall q, state_of m' q = if q =? p then st' else state_of m q) -> dial_record st' = None ->
-  accepting m' = accepting m -> next_conn m' = next_conn m ->
-  LInv m' (mkG (removes [c] (g_open g)) (removes [c] (g_neg g)) (g_att g)
+  accepting m' = accepting m -> next_conn m' = next_conn m -> KInv L m' ->
+  LInv L m' (mkG go' gn' (g_att g)
                (if d then c :: g_done g else g_done g) (g_super g)
                (if d then g_limrej g else c :: g_limrej g) (g_inb g) (g_rep g)).
 Proof.
-  intros [P O R ON F INB D DN AN AS AC SU] Hl Hp Hs Hst Ha Hn.
+  intros [P O R ON F INB D DN AN AS AC SU NE OI KI] Hl Hgo Hgn Hp Hs Hst Ha Hn HK.
   destruct (P _ _ Hl) as (Hoc & Hatc & Hdc & Hiffc).
-  assert (Howed' : forall x, owed (mkG (removes [c] (g_open g)) (removes [c] (g_neg g)) (g_att g)
-               (if d then c :: g_done g else g_done g) (g_super g)
-               (if d then g_limrej g else c :: g_limrej g) (g_inb g) (g_rep g)) x <-> owed g x /\ x <> c).
-  { intros x. unfold owed. cbn [g_open g_neg]. rewrite !in_removes1. tauto. }
+  match goal with |- LInv _ _ ?x => set (g' := x) end.
+  assert (Howed' : forall x, owed g' x <-> owed g x /\ x <> c).
+  { intros x. unfold owed. cbn [g' g_open g_neg]. rewrite Hgn. split.
+    - intros [[t Ht]|[H1 H2]].
+      + apply Hgo in Ht. destruct Ht as [Ht Hne]. cbn [fst] in Hne. split; [left; eauto | exact Hne].
+      + split; [now right | exact H2].
+    - intros [[[t Ht]|H1] H2].
+      + left. exists t. apply Hgo. cbn [fst]. auto.
+      + right. auto. }
   assert (Hother : forall x q, x <> c -> lookup x (pending m) = Some q -> q <> p).
   { intros x q Hne Hx ->. destruct (P _ _ Hx) as (_ & _ & Hdx & _). congruence. }
-  split; cbn [g_att g_done g_super g_limrej g_inb g_rep]; rewrite ?Hp, ?Ha, ?Hn.
+  split; rewrite ?Hp, ?Ha, ?Hn;
+    change (g_att g') with (g_att g); change (g_super g') with (g_super g);
+    change (g_inb g') with (g_inb g); change (g_rep g') with (g_rep g);
+    change (g_done g') with (if d then c :: g_done g else g_done g);
+    change (g_limrej g') with (if d then g_limrej g else c :: g_limrej g).
   - intros x q Hx. rewrite lookup_remove_key in Hx. destruct (x =? c) eqn:E; [discriminate|].
     assert (Hne : x <> c) by lia. destruct (P _ _ Hx) as (Ho & Hat & Hd & Hiff).
     rewrite Howed', Hs. assert (q =? p = false) as -> by (pose proof (Hother _ _ Hne Hx); lia).
     repeat split; auto.
-    + cbn [g_open]. rewrite in_removes1. intros [Hin _]. now apply Hiff.
-    + intros Hop. cbn [g_open]. rewrite in_removes1. split; [now apply Hiff | assumption].
+    + cbn [g' g_open]. rewrite Hgo. intros [Hin _]. now apply Hiff.
+    + intros Hop. cbn [g' g_open]. rewrite Hgo. cbn [fst]. split; [now apply Hiff | assumption].
   - intros x Hx. apply Howed' in Hx. destruct Hx as [Hx Hne]. destruct (O _ Hx) as [q Hq].
     exists q. rewrite lookup_remove_key. assert (x =? c = false) as -> by lia. exact Hq.
   - intros q x Hd. rewrite Hs in Hd. destruct (q =? p) eqn:E; [congruence|].
     specialize (R _ _ Hd). rewrite lookup_remove_key. destruct (x =? c) eqn:E2; [|exact R].
     assert (x = c) by lia. subst x. rewrite Hl in R. injection R as ->. lia.
-  - cbn [g_open g_neg]. intros x Hx. rewrite in_removes1 in *. intros [Hn2 _]. destruct Hx as [Hx _].
-    exact (ON _ Hx Hn2).
+  - cbn [g' g_open g_neg]. intros x t Hx. rewrite Hgo in Hx. rewrite Hgn. intros [Hn2 _]. destruct Hx as [Hx _].
+    exact (ON _ _ Hx Hn2).
   - intros x Hx. rewrite Howed' in Hx.
     assert (Hc : c < next_conn m) by (apply F; now left).
     assert (Hx' : x = c \/ (owed g x \/ In x (keys (g_att g)) \/ In x (g_inb g) \/ In x (g_done g) \/
@@ -406,148 +581,302 @@ Proof.
       * do 3 right. left. destruct d; [assumption | now right].
       * do 4 right. assumption.
   - assumption.
+  - intros q x ts Hq. rewrite Hs in Hq. destruct (q =? p); [rewrite Hq in Hst; discriminate | eapply NE; exact Hq].
+  - intros x t Hin. cbn [g' g_open] in Hin. apply Hgo in Hin. destruct Hin as [Hin _]. eauto.
+  - exact HK.
 Qed.
 
-Lemma owed_neg_facts m g c pa :
-  LInv m g -> In c (g_neg g) -> lookup c (g_att g) = Some pa ->
-  lookup c (pending m) = Some pa /\ dial_record (state_of m pa) = Some c /\ state_of m pa <> Opening c.
+Lemma owed_neg_facts L m g c pa :
+  LInv L m g -> In c (g_neg g) -> lookup c (g_att g) = Some pa ->
+  lookup c (pending m) = Some pa /\ dial_record (state_of m pa) = Some c /\
+  (forall ts, state_of m pa <> Opening c ts) /\ (forall t, ~ In (c, t) (g_open g)).
 Proof.
-  intros [P O R ON F INB D DN AN AS AC SU] Hin Hat.
+  intros [P O R ON F INB D DN AN AS AC SU NE OI KI] Hin Hat.
   destruct (O c (or_intror Hin)) as [p Hp]. destruct (P _ _ Hp) as (_ & Hat' & Hd & Hiff).
   assert (p = pa) by congruence. subst p. repeat split; auto.
-  intros Hop. apply Hiff in Hop. exact (ON _ Hop Hin).
+  - intros ts Hop. pose proof (NE _ _ _ Hop) as Hne. destruct ts as [|t r]; [congruence|].
+    assert (Hin2 : In (c, t) (g_open g)) by (apply Hiff; rewrite Hop; now left).
+    exact (ON _ _ Hin2 Hin).
+  - intros t Ht. exact (ON _ _ Ht Hin).
 Qed.
 
-Lemma owed_open_facts m g c :
-  LInv m g -> In c (g_open g) ->
-  exists p, lookup c (pending m) = Some p /\ lookup c (g_att g) = Some p /\ state_of m p = Opening c.
+Lemma owed_open_facts L m g c t :
+  LInv L m g -> In (c, t) (g_open g) ->
+  exists p ts, lookup c (pending m) = Some p /\ lookup c (g_att g) = Some p /\
+               state_of m p = Opening c ts /\ In t ts /\ ~ In c (g_neg g) /\
+               (forall u, In (c, u) (g_open g) <-> In u ts) /\
+               (forall u, In u ts -> installed L u = true).
 Proof.
-  intros [P O R ON F INB D DN AN AS AC SU] Hin.
-  destruct (O c (or_introl Hin)) as [p Hp]. destruct (P _ _ Hp) as (_ & Hat' & Hd & Hiff).
-  exists p. repeat split; auto. now apply Hiff.
+  intros [P O R ON F INB D DN AN AS AC SU NE OI KI] Hin.
+  destruct (O c (or_introl (ex_intro _ t Hin))) as [p Hp]. destruct (P _ _ Hp) as (_ & Hat' & Hd & Hiff).
+  pose proof (proj1 (Hiff t) Hin) as Hop.
+  destruct (state_of m p) as [r sc|d ts|d|d] eqn:Es; cbn [opening_on] in Hop; try contradiction.
+  cbn [dial_record] in Hd. injection Hd as ->.
+  exists p, ts. repeat split; auto.
+  - exact (ON _ _ Hin).
+  - intros Hu. now apply Hiff.
+  - intros Hu. apply Hiff. exact Hu.
+  - intros u Hu. apply (OI c u). apply Hiff. exact Hu.
 Qed.
 
-Lemma linv_dial_failure m g c pa :
-  LInv m g -> In c (g_neg g) -> lookup c (g_att g) = Some pa ->
-  LInv (fst (do_dial_failure m c pa)) (gstep (TrDialFailure c pa) (snd (do_dial_failure m c pa)) g).
+Lemma forallb_installed L ts : (forall u, In u ts -> installed L u = true) -> forallb (installed L) ts = true.
+Proof. intros H. apply forallb_forall. exact H. Qed.
+
+Lemma linv_dial_failure L m g c t pa :
+  LInv L m g -> installed L t = true -> In c (g_neg g) -> lookup c (g_att g) = Some pa ->
+  LInv L (fst (do_dial_failure m c t pa)) (gstep (TrDialFailure c t pa) (snd (do_dial_failure m c t pa)) g).
 Proof.
-  intros I Hin Hat. destruct (owed_neg_facts _ _ _ _ I Hin Hat) as (Hp & Hd & Hno).
-  unfold do_dial_failure. cbn [set_known pending]. rewrite Hp. cbn [fst snd].
-  unfold gstep. cbn [flat_map app out_open out_dialneg out_cancel out_reject out_term out_rep].
-  assert (Hnotopen : ~ In c (g_open g)).
-  { destruct I as [_ _ _ ON _ _ _ _ _ _ _ _]. intros H. exact (ON _ H Hin). }
-  rewrite removes_nil. rewrite <- (removes_notin c (g_open g) Hnotopen) at 1.
-  apply (linv_conclude m g c pa (st_on_dial_failure (state_of m pa) c) true); auto.
-  - intros q. rewrite state_of_set_state, so_pending, so_known. reflexivity.
+  intros I Hi Hin Hat. destruct (owed_neg_facts _ _ _ _ _ I Hin Hat) as (Hp & Hd & Hno & Hnopen).
+  unfold do_dial_failure. rewrite add_addr_pending, Hp. cbn [fst snd].
+  unfold gstep. cbn [ev_target flat_map app out_open out_dialneg out_cancel out_reject out_term out_rep].
+  apply (linv_conclude L m g c pa (st_on_dial_failure (state_of m pa) c) true);
+    [exact I | exact Hp | | | | | | | | ].
+  - intros x. rewrite in_removes_p. cbn [In]. split; [|tauto]. intros [H _]. split; [exact H|].
+    intros E. destruct x as [a b]. cbn [fst] in E. subst a. exact (Hnopen _ H).
+  - intros x. apply in_removes1.
+  - cbn [set_state set_pending pending]. rewrite ?add_addr_pending; reflexivity.
+  - intros q. rewrite state_of_set_state, !so_pending, !so_add_addr. reflexivity.
   - now apply dial_record_on_failure.
+  - cbn [set_state set_pending accepting]. rewrite ?add_addr_accepting; reflexivity.
+  - cbn [set_state set_pending next_conn]. rewrite ?add_addr_next_conn; reflexivity.
+  - eapply kinv_frame; [reflexivity|]. apply kinv_add_addr; [exact (li_kinds _ _ _ I) | now apply installed_kind_canon].
 Qed.
 
-Lemma linv_open_failure m g c pa :
-  LInv m g -> In c (g_open g) -> lookup c (g_att g) = Some pa ->
-  LInv (fst (do_open_failure m c pa)) (gstep (TrOpenFailure c pa) (snd (do_open_failure m c pa)) g).
-Proof.
-  intros I Hin Hat. destruct (owed_open_facts _ _ _ I Hin) as (p & Hp & Hat' & Hop).
-  assert (p = pa) by congruence. subst p.
-  unfold do_open_failure. cbn [set_known pending]. rewrite Hp, so_known, Hop. cbn [fst snd].
-  unfold gstep. cbn [flat_map app out_open out_dialneg out_cancel out_reject out_term out_rep].
-  assert (Hnotneg : ~ In c (g_neg g)).
-  { destruct I as [_ _ _ ON _ _ _ _ _ _ _ _]. intros H. exact (ON _ Hin H). }
-  rewrite removes_nil. rewrite <- (removes_notin c (g_neg g) Hnotneg) at 1.
-  apply (linv_conclude m g c pa (Disconnected None) true); auto.
-  intros q. rewrite so_pending, state_of_set_state, so_known. reflexivity.
-Qed.
+Lemma in_remove_tr t u ts : In u (remove_tr t ts) <-> In u ts /\ u <> t.
+Proof. unfold remove_tr. rewrite filter_In. split; intros [H1 H2]; split; try assumption; lia. Qed.
 
-Lemma st_on_closed_record s c : dial_record (fst (st_on_closed s c)) = dial_record s.
+(* one transport of several reports failure: the attempt stays owed on the others *)
+Lemma linv_open_shrink L m g c t p ts ts' m' go' :
+  LInv L m g -> lookup c (pending m) = Some p -> state_of m p = Opening c ts ->
+  (forall u, In u ts' <-> In u ts /\ u <> t) -> ts' <> [] ->
+  (forall x, In x go' <-> In x (g_open g) /\ x <> (c, t)) ->
+  pending m' = pending m ->
+  (forall q, state_of m' q = if q =? p then Opening c ts' else state_of m q) ->
+  accepting m' = accepting m -> next_conn m' = next_conn m -> KInv L m' ->
+  LInv L m' (mkG go' (g_neg g) (g_att g) (g_done g) (g_super g) (g_limrej g) (g_inb g) (g_rep g)).
 Proof.
-  destruct s as [r [[e|e]|]|o|o|[o|]]; cbn [st_on_closed]; try reflexivity;
-    destruct (r =? c); cbn [fst dial_record]; try reflexivity; destruct (e =? c); reflexivity.
-Qed.
-
-Lemma st_on_closed_opening s c x : fst (st_on_closed s c) = Opening x <-> s = Opening x.
-Proof.
-  destruct s as [r [[e|e]|]|o|o|[o|]]; cbn [st_on_closed]; try tauto;
-    destruct (r =? c); cbn [fst]; try (split; discriminate); destruct (e =? c); split; discriminate.
-Qed.
-
-(* a transition of one peer's state that keeps its dial record and its Opening-ness *)
-Lemma linv_same_record m g p st' m' :
-  LInv m g ->
-  (forall q, state_of m' q = if q =? p then st' else state_of m q) ->
-  dial_record st' = dial_record (state_of m p) ->
-  (forall x, st' = Opening x <-> state_of m p = Opening x) ->
-  pending m' = pending m -> accepting m' = accepting m -> next_conn m' = next_conn m ->
-  LInv m' g.
-Proof.
-  intros [P O R ON F INB D DN AN AS AC SU] Hs Hd Hop Hp Ha Hn.
-  split; rewrite ?Hp, ?Ha, ?Hn; try assumption.
-  - intros c q Hl. destruct (P _ _ Hl) as (H1 & H2 & H3 & H4). rewrite Hs.
-    destruct (q =? p) eqn:E; [|auto]. assert (q = p) by lia. subst q.
-    repeat split; auto; try congruence.
-    + intros Hin. apply Hop. now apply H4.
-    + intros Hx. apply H4. now apply Hop.
-  - intros q c Hx. rewrite Hs in Hx. destruct (q =? p) eqn:E; [|auto].
-    assert (q = p) by lia. subst q. apply R. congruence.
-Qed.
-
-Lemma linv_closed m g p c :
-  LInv m g -> LInv (fst (do_closed m p c)) g.
-Proof.
-  intros I. unfold do_closed.
-  destruct (st_on_closed (state_of (set_limits m (set_remove c (ins m)) (set_remove c (outs m))) p) c) as [s' rep] eqn:E.
-  cbn [fst]. rewrite so_limits in E.
-  apply (linv_same_record m g p s'); auto.
-  - intros q. rewrite state_of_set_state, so_limits. reflexivity.
-  - replace s' with (fst (st_on_closed (state_of m p) c)) by now rewrite E. apply st_on_closed_record.
-  - intros x. replace s' with (fst (st_on_closed (state_of m p) c)) by now rewrite E. apply st_on_closed_opening.
-Qed.
-
-Lemma linv_opened m g c :
-  LInv m g -> In c (g_open g) ->
-  LInv (fst (do_opened m c false)) (gstep (TrOpened c false) (snd (do_opened m c false)) g).
-Proof.
-  intros I Hin. destruct (owed_open_facts _ _ _ I Hin) as (p & Hp & Hat & Hop).
-  unfold do_opened. rewrite Hp. rewrite so_known, so_pending, Hop. cbn [fst snd].
-  unfold gstep. cbn [flat_map app out_open out_dialneg out_cancel out_reject out_term out_rep].
-  rewrite removes_nil.
-  destruct I as [P O R ON F INB D DN AN AS AC SU].
-  set (m' := set_pending _ _).
-  assert (Hpend : forall x, lookup x (pending m') = lookup x (pending m)).
-  { intros x. subst m'. cbn [set_pending set_state set_known pending]. rewrite lookup_insert_key, lookup_remove_key.
-    destruct (x =? c) eqn:E; [|reflexivity]. assert (x = c) by lia. subst x. now rewrite Hp. }
-  assert (Hst : forall q, state_of m' q = if q =? p then Dialing c else state_of m q).
-  { intros q. subst m'. rewrite so_pending, state_of_set_state, so_known, so_pending. reflexivity. }
-  assert (Hacc : accepting m' = accepting m) by reflexivity.
-  assert (Hnc : next_conn m' = next_conn m) by reflexivity.
-  assert (Hgo : forall x, In x (removes [c; c] (g_open g)) <-> In x (g_open g) /\ x <> c).
-  { intros x. rewrite in_removes. cbn [In]. intuition lia. }
-  assert (Howed' : forall x, owed (mkG (removes [c; c] (g_open g)) (c :: g_neg g) (g_att g) (g_done g)
-                                       (g_super g) (g_limrej g) (g_inb g) (g_rep g)) x <-> owed g x).
-  { intros x. unfold owed. cbn [g_open g_neg In]. rewrite Hgo. split.
-    - intros [[H _]|[<-|H]]; [now left | now left | now right].
-    - intros [H|H]; [|right; now right]. destruct (N.eq_dec x c) as [->|Hne]; [right; now left | left; auto]. }
+  intros [P O R ON F INB D DN AN AS AC SU NE OI KI] Hl Hop Hts Hne Hgo Hp Hs Ha Hn HK.
+  destruct (P _ _ Hl) as (Hoc & Hatc & Hdc & Hiffc). rewrite Hop in Hiffc. cbn [opening_on] in Hiffc.
+  match goal with |- LInv _ _ ?x => set (g' := x) end.
+  assert (Howed' : forall x, owed g' x <-> owed g x).
+  { intros x. unfold owed. cbn [g' g_open g_neg]. split.
+    - intros [[u Hu]|H]; [|now right]. apply Hgo in Hu. left. exists u. tauto.
+    - intros [[u Hu]|H]; [|now right]. destruct (N.eq_dec x c) as [->|Hx].
+      + destruct ts' as [|v r]; [congruence|]. left. exists v.
+        assert (Hv : In v ts /\ v <> t) by (apply Hts; now left).
+        apply Hgo. split; [apply Hiffc; tauto|]. intros [= E]. tauto.
+      + left. exists u. apply Hgo. split; [exact Hu|]. intros [= E _]. contradiction. }
   assert (Hother : forall x q, x <> c -> lookup x (pending m) = Some q -> q <> p).
-  { intros x q Hne Hx ->. destruct (P _ _ Hx) as (_ & _ & Hdx & _). rewrite Hop in Hdx. cbn in Hdx. congruence. }
-  split; cbn [g_att g_done g_super g_limrej g_inb g_rep]; rewrite ?Hacc, ?Hnc; try assumption.
-  - intros x q Hx. rewrite Hpend in Hx. rewrite Howed', Hst. destruct (P _ _ Hx) as (H1 & H2 & H3 & H4).
-    destruct (N.eq_dec x c) as [->|Hne].
+  { intros x q Hx Hq ->. destruct (P _ _ Hq) as (_ & _ & Hdx & _). rewrite Hop in Hdx. cbn in Hdx. congruence. }
+  split; rewrite ?Hp, ?Ha, ?Hn;
+    change (g_att g') with (g_att g); change (g_super g') with (g_super g);
+    change (g_inb g') with (g_inb g); change (g_rep g') with (g_rep g);
+    change (g_done g') with (g_done g); change (g_limrej g') with (g_limrej g);
+    change (g_neg g') with (g_neg g); try assumption.
+  - intros x q Hx. rewrite Howed', Hs. destruct (P _ _ Hx) as (H1 & H2 & H3 & H4).
+    destruct (N.eq_dec x c) as [->|Hxc].
     + assert (q = p) by congruence. subst q. assert (p =? p = true) as -> by lia.
+      repeat split; auto. 
+      * cbn [g' g_open opening_on]. rewrite Hgo, Hts. intros [Hin Hne2]. split; [now apply Hiffc|].
+        intros ->. now apply Hne2.
+      * cbn [g' g_open opening_on]. rewrite Hgo, Hts. intros [Hin Hne2]. split; [now apply Hiffc|].
+        intros [= E]. contradiction.
+    + assert (q =? p = false) as -> by (pose proof (Hother _ _ Hxc Hx); lia).
       repeat split; auto.
-      * cbn [g_open]. rewrite Hgo. intros [_ Hc]. congruence.
-      * discriminate.
-    + assert (q =? p = false) as -> by (pose proof (Hother _ _ Hne Hx); lia).
-      repeat split; auto.
-      * cbn [g_open]. rewrite Hgo. intros [Hi _]. now apply H4.
-      * intros Hx2. cbn [g_open]. rewrite Hgo. split; [now apply H4 | assumption].
-  - intros x Hx. rewrite Howed' in Hx. rewrite Hpend. auto.
-  - intros q x Hd. rewrite Hst in Hd. rewrite Hpend. destruct (q =? p) eqn:E.
-    + assert (q = p) by lia. subst q. cbn in Hd. injection Hd as <-. exact Hp.
-    + auto.
-  - cbn [g_open g_neg]. intros x Hx. rewrite Hgo in Hx. destruct Hx as [Hx Hne]. cbn [In].
-    intros [->|Hn2]; [congruence | exact (ON _ Hx Hn2)].
+      * cbn [g' g_open]. rewrite Hgo. intros [Hin _]. now apply H4.
+      * intros Hq. cbn [g' g_open]. rewrite Hgo. split; [now apply H4|]. intros [= E _]. contradiction.
+  - intros x Hx. rewrite Howed' in Hx. auto.
+  - intros q x Hd. rewrite Hs in Hd. destruct (q =? p) eqn:E; [|auto].
+    assert (q = p) by lia. subst q. cbn in Hd. injection Hd as <-. exact Hl.
+  - intros x u Hx. cbn [g' g_open] in Hx. apply Hgo in Hx. destruct Hx as [Hx _]. exact (ON _ _ Hx).
   - intros x Hx. rewrite Howed' in Hx. now apply F.
   - intros x Hx. rewrite Howed'. exact (D _ Hx).
   - intros x Hx. rewrite Howed'. exact (AS _ Hx).
   - intros x q Hx. rewrite Howed'. exact (AC _ _ Hx).
+  - intros q x us Hq. rewrite Hs in Hq. destruct (q =? p); [|eapply NE; exact Hq].
+    injection Hq as _ <-. exact Hne.
+  - intros x u Hx. cbn [g' g_open] in Hx. apply Hgo in Hx. destruct Hx as [Hx _]. eauto.
+Qed.
+
+Lemma linv_open_failure L m g c t pa :
+  LInv L m g -> installed L t = true -> In (c, t) (g_open g) -> lookup c (g_att g) = Some pa ->
+  LInv L (fst (do_open_failure m c t pa)) (gstep (TrOpenFailure c t pa) (snd (do_open_failure m c t pa)) g).
+Proof.
+  intros I Hi Hin Hat.
+  destruct (owed_open_facts _ _ _ _ _ I Hin) as (p & ts & Hp & Hat' & Hop & Hts & Hnn & Hall & _).
+  assert (p = pa) by congruence. subst p.
+  assert (K0 : KInv L (add_addr m pa (canon pa t))).
+  { apply kinv_add_addr; [exact (li_kinds _ _ _ I) | now apply installed_kind_canon]. }
+  unfold do_open_failure. rewrite add_addr_pending, Hp, so_add_addr, Hop.
+  assert (mem t ts = true) as -> by now apply mem_in.
+  destruct (remove_tr t ts) as [|v r] eqn:Er.
+  - (* the last transport: the failure is reported *)
+    cbn [fst snd]. unfold gstep.
+    cbn [ev_target flat_map app out_open out_dialneg out_cancel out_reject out_term out_rep].
+    rewrite removes_nil.
+    apply (linv_conclude L m g c pa (Disconnected None) true);
+      [exact I | exact Hp | | | | | reflexivity | | | ].
+    + intros x. rewrite in_removes_p. cbn [In]. split.
+      * intros [H Hne]. split; [exact H|]. intros E. destruct x as [a u]. cbn [fst] in E. subst a.
+        assert (Hu : In u ts) by now apply Hall.
+        destruct (N.eq_dec u t) as [->|Hut]; [tauto|].
+        assert (Hx : In u (remove_tr t ts)) by (apply in_remove_tr; auto). rewrite Er in Hx. destruct Hx.
+      * intros [H Hne]. split; [exact H|]. intros [E|[]]. subst x. now apply Hne.
+    + intros x. split; [|tauto]. intros H. split; [exact H|]. intros ->. contradiction.
+    + cbn [set_oerrs set_pending set_state pending]. rewrite ?add_addr_pending; reflexivity.
+    + intros q. rewrite so_oerrs, so_pending, state_of_set_state, so_add_addr. reflexivity.
+    + cbn [set_oerrs set_pending set_state accepting]. rewrite ?add_addr_accepting; reflexivity.
+    + cbn [set_oerrs set_pending set_state next_conn]. rewrite ?add_addr_next_conn; reflexivity.
+    + eapply kinv_frame; [|exact K0]. reflexivity.
+  - (* another transport is still trying: nothing is reported *)
+    cbn [fst snd]. unfold gstep.
+    cbn [ev_target flat_map app out_open out_dialneg out_cancel out_reject out_term out_rep].
+    rewrite removes_nil.
+    apply (linv_open_shrink L m g c t pa ts (v :: r));
+      [exact I | exact Hp | exact Hop | | | | | | | | ].
+    + intros u. rewrite <- Er. apply in_remove_tr.
+    + discriminate.
+    + intros x. rewrite in_removes_p. cbn [In]. split.
+      * intros [H Hne]. split; [exact H|]. intros ->. apply Hne. now left.
+      * intros [H Hne]. split; [exact H|]. intros [E|[]]. now subst x.
+    + cbn [set_oerrs set_state pending]. rewrite ?add_addr_pending; reflexivity.
+    + intros q. rewrite so_oerrs, state_of_set_state, so_add_addr. reflexivity.
+    + cbn [set_oerrs set_state accepting]. rewrite ?add_addr_accepting; reflexivity.
+    + cbn [set_oerrs set_state next_conn]. rewrite ?add_addr_next_conn; reflexivity.
+    + eapply kinv_frame; [|exact K0]. reflexivity.
+Qed.
+
+Lemma st_on_closed_record s c : dial_record (fst (st_on_closed s c)) = dial_record s.
+Proof.
+  destruct s as [r [[e|e]|]|o ts|o|[o|]]; cbn [st_on_closed]; try reflexivity;
+    destruct (r =? c); cbn [fst dial_record]; try reflexivity; destruct (e =? c); reflexivity.
+Qed.
+
+Lemma st_on_closed_opening s c x ts : fst (st_on_closed s c) = Opening x ts <-> s = Opening x ts.
+Proof.
+  destruct s as [r [[e|e]|]|o us|o|[o|]]; cbn [st_on_closed]; try tauto;
+    destruct (r =? c); cbn [fst]; try (split; discriminate); destruct (e =? c); split; discriminate.
+Qed.
+
+(* a transition of one peer's state that keeps its dial record and its Opening-ness *)
+Lemma linv_same_record L m g p st' m' :
+  LInv L m g ->
+  (forall q, state_of m' q = if q =? p then st' else state_of m q) ->
+  dial_record st' = dial_record (state_of m p) ->
+  (forall x ts, st' = Opening x ts <-> state_of m p = Opening x ts) ->
+  pending m' = pending m -> accepting m' = accepting m -> next_conn m' = next_conn m -> KInv L m' ->
+  LInv L m' g.
+Proof.
+  intros [P O R ON F INB D DN AN AS AC SU NE OI KI] Hs Hd Hop Hp Ha Hn HK.
+  assert (Hon : forall t, opening_on st' t <-> opening_on (state_of m p) t).
+  { intros t. destruct st' as [r sc|x ts|x|x] eqn:Est.
+    - cbn [opening_on]. split; [tauto|]. destruct (state_of m p) as [r' sc'|x' ts'|x'|x'] eqn:Es; cbn [opening_on]; try tauto.
+      intros _. assert (E : Connected r sc = Opening x' ts') by (apply Hop; reflexivity). discriminate.
+    - assert (E : state_of m p = Opening x ts) by (apply Hop; reflexivity). rewrite E. tauto.
+    - cbn [opening_on]. split; [tauto|]. destruct (state_of m p) as [r' sc'|x' ts'|x'|x'] eqn:Es; cbn [opening_on]; try tauto.
+      intros _. assert (E : Dialing x = Opening x' ts') by (apply Hop; reflexivity). discriminate.
+    - cbn [opening_on]. split; [tauto|]. destruct (state_of m p) as [r' sc'|x' ts'|x'|x'] eqn:Es; cbn [opening_on]; try tauto.
+      intros _. assert (E : Disconnected x = Opening x' ts') by (apply Hop; reflexivity). discriminate. }
+  split; rewrite ?Hp, ?Ha, ?Hn; try assumption.
+  - intros c q Hl. destruct (P _ _ Hl) as (H1 & H2 & H3 & H4). rewrite Hs.
+    destruct (q =? p) eqn:E; [|auto]. assert (q = p) by lia. subst q.
+    repeat split; auto; try congruence.
+    + intros Hin. apply Hon. now apply H4.
+    + intros Hx. apply H4. now apply Hon.
+  - intros q c Hx. rewrite Hs in Hx. destruct (q =? p) eqn:E; [|auto].
+    assert (q = p) by lia. subst q. apply R. congruence.
+  - intros q c ts Hq. rewrite Hs in Hq. destruct (q =? p) eqn:E; [|eapply NE; exact Hq].
+    apply Hop in Hq. eapply NE. exact Hq.
+Qed.
+
+Lemma linv_closed L m g p c :
+  LInv L m g -> LInv L (fst (do_closed m p c)) g.
+Proof.
+  intros I. unfold do_closed.
+  destruct (st_on_closed (state_of (set_limits m (set_remove c (ins m)) (set_remove c (outs m))) p) c) as [s' rep] eqn:E.
+  cbn [fst]. rewrite so_limits in E.
+  apply (linv_same_record L m g p s'); auto.
+  - intros q. rewrite state_of_set_state, so_limits. reflexivity.
+  - replace s' with (fst (st_on_closed (state_of m p) c)) by now rewrite E. apply st_on_closed_record.
+  - intros x ts. replace s' with (fst (st_on_closed (state_of m p) c)) by now rewrite E. apply st_on_closed_opening.
+  - eapply kinv_frame; [|exact (li_kinds _ _ _ I)]. reflexivity.
+Qed.
+
+(* ConnectionOpened from transport t for attempt c: the open phase ends on every transport, the
+   winner negotiates *)
+Lemma linv_opened L m g c t :
+  LInv L m g -> installed L t = true -> In (c, t) (g_open g) ->
+  LInv L (fst (do_opened L m c t false)) (gstep (TrOpened c t false) (snd (do_opened L m c t false)) g).
+Proof.
+  intros I Hi Hin.
+  destruct (owed_open_facts _ _ _ _ _ I Hin) as (p & ts & Hp & Hat & Hop & Hts & Hnn & Hall & Hinst).
+  unfold do_opened. cbn [set_oerrs pending]. rewrite Hp. rewrite so_add_addr, so_pending, so_oerrs, Hop.
+  rewrite (forallb_installed _ _ Hinst). cbn [negb fst snd].
+  unfold gstep. cbn [ev_target].
+  rewrite !flat_map_app, ?fm_open_cancels, ?fm_dialneg_cancels, ?fm_cancel_cancels, ?fm_reject_cancels,
+    ?fm_term_cancels, ?fm_rep_cancels.
+  cbn [flat_map app out_open out_dialneg out_cancel out_reject out_term out_rep]. rewrite !app_nil_r.
+  rewrite removes_nil.
+  pose proof (li_kinds _ _ _ I) as K.
+  destruct I as [P O R ON F INB D DN AN AS AC SU NE OI KI].
+  match goal with |- LInv _ ?x _ => set (m' := x) end.
+  match goal with |- LInv _ _ ?x => set (g' := x) end.
+  assert (Hpend : forall x, lookup x (pending m') = lookup x (pending m)).
+  { intros x. subst m'. cbn [set_pending set_state pending]. rewrite lookup_insert_key, add_addr_pending.
+    cbn [set_pending set_oerrs pending]. rewrite lookup_remove_key.
+    destruct (x =? c) eqn:E; [|reflexivity]. assert (x = c) by lia. subst x. now rewrite Hp. }
+  assert (Hst : forall q, state_of m' q = if q =? p then Dialing c else state_of m q).
+  { intros q. subst m'. rewrite so_pending, state_of_set_state, so_add_addr, so_pending, so_oerrs. reflexivity. }
+  assert (Hacc : accepting m' = accepting m).
+  { subst m'. cbn [set_pending set_state accepting]. rewrite add_addr_accepting. reflexivity. }
+  assert (Hnc : next_conn m' = next_conn m).
+  { subst m'. cbn [set_pending set_state next_conn]. rewrite add_addr_next_conn. reflexivity. }
+  assert (Hgo : forall x, In x (g_open g') <-> In x (g_open g) /\ fst x <> c).
+  { intros x. cbn [g' g_open]. rewrite in_removes_p. cbn [In]. split.
+    - intros [H Hne]. split; [exact H|]. intros E. destruct x as [a u]. cbn [fst] in E. subst a.
+      apply Hne. right. apply in_map_pair. split; [reflexivity | now apply Hall].
+    - intros [H Hne]. split; [exact H|]. intros [E|E]; [subst x; now apply Hne|].
+      destruct x as [a u]. apply in_map_pair in E. destruct E as [-> _]. now apply Hne. }
+  assert (Hgn : forall x, In x (g_neg g') <-> x = c \/ In x (g_neg g)).
+  { intros x. cbn [g' g_neg In]. intuition. }
+  assert (Howed' : forall x, owed g' x <-> owed g x).
+  { intros x. unfold owed. rewrite Hgn. split.
+    - intros [[u Hu]|[->|H]].
+      + apply Hgo in Hu. left. exists u. tauto.
+      + left. eauto.
+      + now right.
+    - intros [[u Hu]|H]; [|right; now right]. destruct (N.eq_dec x c) as [->|Hne]; [right; now left|].
+      left. exists u. apply Hgo. auto. }
+  assert (Hother : forall x q, x <> c -> lookup x (pending m) = Some q -> q <> p).
+  { intros x q Hne Hx ->. destruct (P _ _ Hx) as (_ & _ & Hdx & _). rewrite Hop in Hdx. cbn in Hdx. congruence. }
+  split; rewrite ?Hacc, ?Hnc;
+    change (g_att g') with (g_att g); change (g_super g') with (g_super g);
+    change (g_inb g') with (g_inb g); change (g_rep g') with (g_rep g);
+    change (g_done g') with (g_done g); change (g_limrej g') with (g_limrej g); try assumption.
+  - intros x q Hx. rewrite Hpend in Hx. rewrite Howed', Hst. destruct (P _ _ Hx) as (H1 & H2 & H3 & H4).
+    destruct (N.eq_dec x c) as [->|Hne].
+    + assert (q = p) by congruence. subst q. assert (p =? p = true) as -> by lia.
+      repeat split; auto.
+      * rewrite Hgo. cbn [fst]. intros [_ Hc]. congruence.
+      * cbn [opening_on]. tauto.
+    + assert (q =? p = false) as -> by (pose proof (Hother _ _ Hne Hx); lia).
+      repeat split; auto.
+      * rewrite Hgo. intros [Hi2 _]. now apply H4.
+      * intros Hx2. rewrite Hgo. cbn [fst]. split; [now apply H4 | assumption].
+  - intros x Hx. rewrite Howed' in Hx. rewrite Hpend. auto.
+  - intros q x Hd. rewrite Hst in Hd. rewrite Hpend. destruct (q =? p) eqn:E.
+    + assert (q = p) by lia. subst q. cbn in Hd. injection Hd as <-. exact Hp.
+    + auto.
+  - intros x u Hx. rewrite Hgo in Hx. destruct Hx as [Hx Hne]. cbn [fst] in Hne. rewrite Hgn.
+    intros [->|Hn2]; [congruence | exact (ON _ _ Hx Hn2)].
+  - intros x Hx. rewrite Howed' in Hx. now apply F.
+  - intros x Hx. rewrite Howed'. exact (D _ Hx).
+  - intros x Hx. rewrite Howed'. exact (AS _ Hx).
+  - intros x q Hx. rewrite Howed'. exact (AC _ _ Hx).
+  - intros q x us Hq. rewrite Hst in Hq. destruct (q =? p); [discriminate | eapply NE; exact Hq].
+  - intros x u Hx. apply Hgo in Hx. destruct Hx as [Hx _]. eauto.
+  - subst m'. eapply kinv_frame; [reflexivity|]. apply kinv_add_addr; [|now apply installed_kind_canon].
+    eapply kinv_frame; [|exact K]. reflexivity.
 Qed.
 
 Lemma keys_app_in {A} (l1 l2 : list (N * A)) x : In x (keys (l1 ++ l2)) <-> In x (keys l1) \/ In x (keys l2).
@@ -566,38 +895,48 @@ Proof. intros H. rewrite lookup_app_last, H. reflexivity. Qed.
 
 (* an outbound attempt c of peer p concludes with an accepted connection: it moves from the
    transport's obligations into the accept futures *)
-Lemma linv_conclude_acc m g c p st' (b : bool) m' :
-  LInv m g -> lookup c (pending m) = Some p ->
+Lemma linv_conclude_acc L m g c p st' (b : bool) m' go' gn' :
+  LInv L m g -> lookup c (pending m) = Some p ->
+  (forall x, In x go' <-> In x (g_open g) /\ fst x <> c) ->
+  (forall x, In x gn' <-> In x (g_neg g) /\ x <> c) ->
   pending m' = remove_key c (pending m) ->
   (forall q, state_of m' q = if q =? p then st' else state_of m q) -> dial_record st' = None ->
-  accepting m' = accepting m ++ [(c, (p, b))] -> next_conn m' = next_conn m ->
-  LInv m' (mkG (removes [c] (g_open g)) (removes [c] (g_neg g)) (g_att g) (g_done g) (g_super g)
-               (g_limrej g) (g_inb g) (g_rep g)).
+  accepting m' = accepting m ++ [(c, (p, b))] -> next_conn m' = next_conn m -> KInv L m' ->
+  LInv L m' (mkG go' gn' (g_att g) (g_done g) (g_super g) (g_limrej g) (g_inb g) (g_rep g)).
 Proof.
-  intros [P O R ON F INB D DN AN AS AC SU] Hl Hp Hs Hst Ha Hn.
+  intros [P O R ON F INB D DN AN AS AC SU NE OI KI] Hl Hgo Hgn Hp Hs Hst Ha Hn HK.
   destruct (P _ _ Hl) as (Hoc & Hatc & Hdc & Hiffc).
-  assert (Howed' : forall x, owed (mkG (removes [c] (g_open g)) (removes [c] (g_neg g)) (g_att g)
-               (g_done g) (g_super g) (g_limrej g) (g_inb g) (g_rep g)) x <-> owed g x /\ x <> c).
-  { intros x. unfold owed. cbn [g_open g_neg]. rewrite !in_removes1. tauto. }
+  match goal with |- LInv _ _ ?x => set (g' := x) end.
+  assert (Howed' : forall x, owed g' x <-> owed g x /\ x <> c).
+  { intros x. unfold owed. cbn [g' g_open g_neg]. rewrite Hgn. split.
+    - intros [[t Ht]|[H1 H2]].
+      + apply Hgo in Ht. destruct Ht as [Ht Hne]. cbn [fst] in Hne. split; [left; eauto | exact Hne].
+      + split; [now right | exact H2].
+    - intros [[[t Ht]|H1] H2].
+      + left. exists t. apply Hgo. cbn [fst]. auto.
+      + right. auto. }
   assert (Hother : forall x q, x <> c -> lookup x (pending m) = Some q -> q <> p).
   { intros x q Hne Hx ->. destruct (P _ _ Hx) as (_ & _ & Hdx & _). congruence. }
   assert (Hcacc : ~ In c (keys (accepting m))) by (intros Hin; exact (AS _ Hin Hoc)).
   assert (Hkacc : forall x, In x (keys (accepting m')) <-> In x (keys (accepting m)) \/ x = c).
   { intros x. rewrite Ha, keys_app_in. cbn [keys map fst In]. intuition. }
-  split; cbn [g_att g_done g_super g_limrej g_inb g_rep]; rewrite ?Hp, ?Hn.
+  split; rewrite ?Hp, ?Hn;
+    change (g_att g') with (g_att g); change (g_super g') with (g_super g);
+    change (g_inb g') with (g_inb g); change (g_rep g') with (g_rep g);
+    change (g_done g') with (g_done g); change (g_limrej g') with (g_limrej g).
   - intros x q Hx. rewrite lookup_remove_key in Hx. destruct (x =? c) eqn:E; [discriminate|].
     assert (Hne : x <> c) by lia. destruct (P _ _ Hx) as (Ho & Hat & Hd & Hiff).
     rewrite Howed', Hs. assert (q =? p = false) as -> by (pose proof (Hother _ _ Hne Hx); lia).
     repeat split; auto.
-    + cbn [g_open]. rewrite in_removes1. intros [Hin _]. now apply Hiff.
-    + intros Hop. cbn [g_open]. rewrite in_removes1. split; [now apply Hiff | assumption].
+    + cbn [g' g_open]. rewrite Hgo. intros [Hin _]. now apply Hiff.
+    + intros Hop. cbn [g' g_open]. rewrite Hgo. cbn [fst]. split; [now apply Hiff | assumption].
   - intros x Hx. apply Howed' in Hx. destruct Hx as [Hx Hne]. destruct (O _ Hx) as [q Hq].
     exists q. rewrite lookup_remove_key. assert (x =? c = false) as -> by lia. exact Hq.
   - intros q x Hd. rewrite Hs in Hd. destruct (q =? p) eqn:E; [congruence|].
     specialize (R _ _ Hd). rewrite lookup_remove_key. destruct (x =? c) eqn:E2; [|exact R].
     assert (x = c) by lia. subst x. rewrite Hl in R. injection R as ->. lia.
-  - cbn [g_open g_neg]. intros x Hx. rewrite in_removes1 in *. intros [Hn2 _]. destruct Hx as [Hx _].
-    exact (ON _ Hx Hn2).
+  - cbn [g' g_open g_neg]. intros x t Hx. rewrite Hgo in Hx. rewrite Hgn. intros [Hn2 _]. destruct Hx as [Hx _].
+    exact (ON _ _ Hx Hn2).
   - intros x Hx. rewrite Howed', Hkacc in Hx.
     assert (Hc : c < next_conn m) by (apply F; now left).
     assert (Hx' : x = c \/ (owed g x \/ In x (keys (g_att g)) \/ In x (g_inb g) \/ In x (g_done g) \/
@@ -618,16 +957,19 @@ Proof.
       * do 4 right. now left.
   - intros x q Hx Hat. destruct (SU _ _ Hx Hat) as [H|(c' & b' & H)]; [now left|].
     right. exists c', b'. rewrite Ha. now apply lookup_snoc_some.
+  - intros q x ts Hq. rewrite Hs in Hq. destruct (q =? p); [rewrite Hq in Hst; discriminate | eapply NE; exact Hq].
+  - intros x t Hin. cbn [g' g_open] in Hin. apply Hgo in Hin. destruct Hin as [Hin _]. eauto.
+  - exact HK.
 Qed.
 
 Lemma established_own_record s c :
-  dial_record s = Some c -> s <> Opening c ->
+  dial_record s = Some c -> (forall ts, s <> Opening c ts) ->
   snd (st_on_established s c) = true /\ dial_record (fst (st_on_established s c)) = None /\
-  (forall d, s <> Opening d).
+  (forall d ts, s <> Opening d ts).
 Proof.
-  destruct s as [r [[e|e]|]|o|o|[o|]]; cbn [dial_record]; try discriminate; intros [= ->] Hne;
+  destruct s as [r [[e|e]|]|o us|o|[o|]]; cbn [dial_record]; try discriminate; intros [= ->] Hne;
     cbn [st_on_established]; try (assert (c =? c = true) as -> by lia); cbn [fst snd dial_record];
-    try (repeat split; discriminate). congruence.
+    try (repeat split; discriminate). exfalso. eapply Hne. reflexivity.
 Qed.
 
 Lemma nondefault_exists m p : state_of m p <> Disconnected None ->
@@ -640,50 +982,67 @@ Qed.
 Lemma mem_single c : mem c [c] = true.
 Proof. unfold mem. cbn [existsb]. assert (c =? c = true) as -> by lia. reflexivity. Qed.
 
-Lemma linv_established_dialer L m g p c :
-  LInv m g -> In c (g_neg g) -> lookup c (g_att g) = Some p ->
-  LInv (fst (do_established L m p c false false))
-       (gstep (TrEstablished p c false false) (snd (do_established L m p c false false)) g).
+Lemma linv_established_dialer L m g p c t :
+  LInv L m g -> installed L t = true -> In c (g_neg g) -> lookup c (g_att g) = Some p ->
+  LInv L (fst (do_established L m p c t false false))
+       (gstep (TrEstablished p c t false false) (snd (do_established L m p c t false false)) g).
 Proof.
-  intros I Hin Hat. destruct (owed_neg_facts _ _ _ _ I Hin Hat) as (Hp & Hd & Hno).
-  assert (Hnotopen : ~ In c (g_open g)).
-  { destruct I as [_ _ _ ON _ _ _ _ _ _ _ _]. intros H. exact (ON _ H Hin). }
-  unfold do_established. cbn [set_known pending]. rewrite Hp.
+  intros I Hi Hin Hat. destruct (owed_neg_facts _ _ _ _ _ I Hin Hat) as (Hp & Hd & Hno & Hnopen).
+  assert (Hgo : forall x, In x (g_open g) <-> In x (g_open g) /\ fst x <> c).
+  { intros x. split; [|tauto]. intros H. split; [exact H|]. intros E. destruct x as [a u]. cbn [fst] in E.
+    subst a. exact (Hnopen _ H). }
+  set (m0 := add_addr (set_oerrs m (remove_key c (oerrs m))) p (canon p t)).
+  assert (K0 : KInv L m0).
+  { apply kinv_add_addr; [|now apply installed_kind_canon]. eapply kinv_frame; [|exact (li_kinds _ _ _ I)]. reflexivity. }
+  assert (Hp0 : pending m0 = pending m) by (subst m0; now rewrite add_addr_pending).
+  assert (Hs0 : forall q, state_of m0 q = state_of m q) by (intros q; subst m0; now rewrite so_add_addr, so_oerrs).
+  assert (Ha0 : accepting m0 = accepting m) by (subst m0; now rewrite add_addr_accepting).
+  assert (Hn0 : next_conn m0 = next_conn m) by (subst m0; now rewrite add_addr_next_conn).
+  assert (Ho0 : outs m0 = outs m) by (subst m0; now rewrite add_addr_outs).
+  unfold do_established. fold m0. rewrite Hp0, Hp.
   assert (p =? p = true) as -> by lia.
-  unfold do_established_checked. rewrite so_pending, so_known.
-  cbn [set_pending set_known outs ins].
+  unfold do_established_checked. rewrite so_pending, Hs0.
+  cbn [set_pending outs ins]. rewrite Ho0.
   destruct (limit_reached (max_out L) (outs m)).
   - (* rejected by the limit: the attempt ends without report (known finding), the record is cleared *)
     rewrite nondefault_exists.
-    2:{ rewrite so_pending, so_known. intros E. rewrite E in Hd. discriminate. }
+    2:{ rewrite so_pending, Hs0. intros E. rewrite E in Hd. discriminate. }
     cbn [fst snd]. unfold gstep.
-    cbn [flat_map app out_open out_dialneg out_cancel out_reject out_term out_rep]. rewrite mem_single.
-    rewrite removes_nil. rewrite <- (removes_notin c (g_open g) Hnotopen) at 1.
-    apply (linv_conclude m g c p (st_on_dial_failure (state_of m p) c) false); auto.
-    + intros q. rewrite state_of_set_state, so_pending, so_known. reflexivity.
+    cbn [ev_target flat_map app out_open out_dialneg out_cancel out_reject out_term out_rep map first1]. rewrite mem_single.
+    rewrite removes_p_nil.
+    apply (linv_conclude L m g c p (st_on_dial_failure (state_of m p) c) false);
+      [exact I | exact Hp | exact Hgo | intros x; apply in_removes1 | | | | | | ].
+    + cbn [set_state set_pending pending]. reflexivity.
+    + intros q. rewrite state_of_set_state, !so_pending, !Hs0. reflexivity.
     + now apply dial_record_on_failure.
+    + cbn [set_state set_pending accepting]. exact Ha0.
+    + cbn [set_state set_pending next_conn]. exact Hn0.
+    + eapply kinv_frame; [|exact K0]. reflexivity.
   - destruct (established_own_record _ _ Hd Hno) as (Hacc & Hrec & Hnop).
     destruct (st_on_established (state_of m p) c) as [s' acc] eqn:Est. cbn [fst snd] in Hacc, Hrec. subst acc.
     cbn [negb].
-    assert (Hprev : forall (A : Type) (x : mgr -> conn -> A) (y : A),
-               match state_of m p with Opening d => x m d | _ => y end = y).
-    { intros A x y. destruct (state_of m p); try reflexivity. exfalso. eapply Hnop. reflexivity. }
-    destruct (state_of m p) as [r sc|o|o|o] eqn:Es; try (exfalso; eapply Hnop; reflexivity);
-      cbn [fst snd app]; unfold gstep;
-      cbn [flat_map app out_open out_dialneg out_cancel out_reject out_term out_rep mem existsb];
-      rewrite removes_nil; rewrite <- (removes_notin c (g_open g) Hnotopen) at 1;
-      (apply (linv_conclude_acc m g c p s' false); auto;
-       [ intros q; rewrite so_accepting, so_limits, state_of_set_state, so_pending, so_known; reflexivity ]).
+    destruct (state_of m p) as [r sc|o us|o|o] eqn:Es; try (exfalso; eapply Hnop; reflexivity);
+      unfold est_finish; cbn [fst snd app]; unfold gstep;
+      cbn [ev_target flat_map app out_open out_dialneg out_cancel out_reject out_term out_rep mem existsb map first1];
+      rewrite removes_p_nil;
+      (apply (linv_conclude_acc L m g c p s' false);
+       [exact I | exact Hp | exact Hgo | intros x; apply in_removes1
+        | reflexivity
+        | intros q; rewrite so_accepting, so_limits, state_of_set_state, so_pending, Hs0; reflexivity
+        | exact Hrec
+        | cbn [set_accepting set_limits set_state set_pending accepting]; now rewrite Ha0
+        | cbn [set_accepting set_limits set_state set_pending next_conn]; exact Hn0
+        | eapply kinv_frame; [|exact K0]; reflexivity ]).
 Qed.
 
 Definition with_inb (g : ghost) (i : list conn) : ghost :=
   mkG (g_open g) (g_neg g) (g_att g) (g_done g) (g_super g) (g_limrej g) i (g_rep g).
 
-Lemma inb_facts m g c : LInv m g -> In c (g_inb g) ->
+Lemma inb_facts L m g c : LInv L m g -> In c (g_inb g) ->
   ~ owed g c /\ lookup c (pending m) = None /\ ~ In c (keys (accepting m)) /\ ~ In c (g_done g) /\
   ~ In c (keys (g_att g)) /\ c < next_conn m.
 Proof.
-  intros [P O R ON F INB D DN AN AS AC SU] Hin. destruct (INB _ Hin) as (H1 & H2 & H3).
+  intros [P O R ON F INB D DN AN AS AC SU NE OI KI] Hin. destruct (INB _ Hin) as (H1 & H2 & H3).
   assert (Hno : ~ owed g c).
   { intros Ho. destruct (O _ Ho) as [q Hq]. destruct (P _ _ Hq) as (_ & Hat & _). apply H1.
     eapply lookup_in_keys. exact Hat. }
@@ -695,28 +1054,29 @@ Proof.
 Qed.
 
 (* dropping an unused inbound id (the connection was rejected) *)
-Lemma linv_inb_drop m g c m' :
-  LInv m g -> pending m' = pending m -> (forall q, state_of m' q = state_of m q) ->
-  accepting m' = accepting m -> next_conn m' = next_conn m ->
-  LInv m' (with_inb g (removes [c] (g_inb g))).
+Lemma linv_inb_drop L m g c m' :
+  LInv L m g -> pending m' = pending m -> (forall q, state_of m' q = state_of m q) ->
+  accepting m' = accepting m -> next_conn m' = next_conn m -> KInv L m' ->
+  LInv L m' (with_inb g (removes [c] (g_inb g))).
 Proof.
-  intros [P O R ON F INB D DN AN AS AC SU] Hp Hs Ha Hn. unfold with_inb.
+  intros [P O R ON F INB D DN AN AS AC SU NE OI KI] Hp Hs Ha Hn HK. unfold with_inb.
   split; cbn [g_open g_neg g_att g_done g_super g_limrej g_inb g_rep]; rewrite ?Hp, ?Ha, ?Hn; try assumption.
   - intros x q Hx. rewrite Hs. exact (P _ _ Hx).
   - intros q x Hx. rewrite Hs in Hx. auto.
   - intros x Hx. apply F. unfold owed in *. cbn [g_open g_neg] in Hx. rewrite in_removes1 in Hx. intuition.
   - intros x Hx. rewrite in_removes1 in Hx. destruct Hx as [Hx _]. auto.
+  - intros q x ts Hq. rewrite Hs in Hq. eapply NE. exact Hq.
 Qed.
 
 (* accepting an inbound connection c for p whose peer state keeps its dial record *)
-Lemma linv_inb_accept m g c p m' :
-  LInv m g -> In c (g_inb g) ->
+Lemma linv_inb_accept L m g c p m' :
+  LInv L m g -> In c (g_inb g) ->
   pending m' = pending m -> (forall q, state_of m' q = state_of m q) ->
-  accepting m' = accepting m ++ [(c, (p, true))] -> next_conn m' = next_conn m ->
-  LInv m' (with_inb g (removes [c] (g_inb g))).
+  accepting m' = accepting m ++ [(c, (p, true))] -> next_conn m' = next_conn m -> KInv L m' ->
+  LInv L m' (with_inb g (removes [c] (g_inb g))).
 Proof.
-  intros I Hin Hp Hs Ha Hn. destruct (inb_facts _ _ _ I Hin) as (Hno & Hpc & Hac & Hdc & Hatc & Hlt).
-  destruct I as [P O R ON F INB D DN AN AS AC SU]. unfold with_inb.
+  intros I Hin Hp Hs Ha Hn HK. destruct (inb_facts _ _ _ _ I Hin) as (Hno & Hpc & Hac & Hdc & Hatc & Hlt).
+  destruct I as [P O R ON F INB D DN AN AS AC SU NE OI KI]. unfold with_inb.
   assert (Hkacc : forall x, In x (keys (accepting m')) <-> In x (keys (accepting m)) \/ x = c).
   { intros x. rewrite Ha, keys_app_in. cbn [keys map fst In]. intuition. }
   split; cbn [g_open g_neg g_att g_done g_super g_limrej g_inb g_rep]; rewrite ?Hp, ?Hn; try assumption.
@@ -735,39 +1095,51 @@ Proof.
   - intros x q Hx. rewrite Hkacc. destruct (AC _ _ Hx) as [H|[H|[H|[H|H]]]]; auto. do 4 right. now left.
   - intros x q Hx Hat. destruct (SU _ _ Hx Hat) as [H|(c' & b' & H)]; [now left|].
     right. exists c', b'. rewrite Ha. now apply lookup_snoc_some.
+  - intros q x ts Hq. rewrite Hs in Hq. eapply NE. exact Hq.
 Qed.
 
 (* an opening attempt d of peer p is superseded: an accept future for a connection with p exists *)
-Lemma linv_conclude_super m g d p st' m' :
-  LInv m g -> lookup d (pending m) = Some p ->
+Lemma linv_conclude_super L m g d p st' m' go' :
+  LInv L m g -> lookup d (pending m) = Some p ->
   (exists c' b, lookup c' (accepting m) = Some (p, b)) ->
+  (forall x, In x go' <-> In x (g_open g) /\ fst x <> d) ->
+  ~ In d (g_neg g) ->
   pending m' = remove_key d (pending m) ->
   (forall q, state_of m' q = if q =? p then st' else state_of m q) -> dial_record st' = None ->
-  accepting m' = accepting m -> next_conn m' = next_conn m ->
-  LInv m' (mkG (removes [d] (g_open g)) (removes [d] (g_neg g)) (g_att g) (g_done g) (d :: g_super g)
+  accepting m' = accepting m -> next_conn m' = next_conn m -> KInv L m' ->
+  LInv L m' (mkG go' (g_neg g) (g_att g) (g_done g) (d :: g_super g)
                (g_limrej g) (g_inb g) (g_rep g)).
 Proof.
-  intros [P O R ON F INB D DN AN AS AC SU] Hl Hwit Hp Hs Hst Ha Hn.
+  intros [P O R ON F INB D DN AN AS AC SU NE OI KI] Hl Hwit Hgo Hdn Hp Hs Hst Ha Hn HK.
   destruct (P _ _ Hl) as (Hoc & Hatc & Hdc & Hiffc).
-  assert (Howed' : forall x, owed (mkG (removes [d] (g_open g)) (removes [d] (g_neg g)) (g_att g)
-               (g_done g) (d :: g_super g) (g_limrej g) (g_inb g) (g_rep g)) x <-> owed g x /\ x <> d).
-  { intros x. unfold owed. cbn [g_open g_neg]. rewrite !in_removes1. tauto. }
+  match goal with |- LInv _ _ ?x => set (g' := x) end.
+  assert (Howed' : forall x, owed g' x <-> owed g x /\ x <> d).
+  { intros x. unfold owed. cbn [g' g_open g_neg]. split.
+    - intros [[t Ht]|H1].
+      + apply Hgo in Ht. destruct Ht as [Ht Hne]. cbn [fst] in Hne. split; [left; eauto | exact Hne].
+      + split; [now right|]. intros ->. contradiction.
+    - intros [[[t Ht]|H1] H2].
+      + left. exists t. apply Hgo. cbn [fst]. auto.
+      + right. auto. }
   assert (Hother : forall x q, x <> d -> lookup x (pending m) = Some q -> q <> p).
   { intros x q Hne Hx ->. destruct (P _ _ Hx) as (_ & _ & Hdx & _). congruence. }
-  split; cbn [g_att g_done g_super g_limrej g_inb g_rep]; rewrite ?Hp, ?Ha, ?Hn.
+  split; rewrite ?Hp, ?Ha, ?Hn;
+    change (g_att g') with (g_att g); change (g_super g') with (d :: g_super g);
+    change (g_inb g') with (g_inb g); change (g_rep g') with (g_rep g);
+    change (g_done g') with (g_done g); change (g_limrej g') with (g_limrej g);
+    change (g_neg g') with (g_neg g).
   - intros x q Hx. rewrite lookup_remove_key in Hx. destruct (x =? d) eqn:E; [discriminate|].
     assert (Hne : x <> d) by lia. destruct (P _ _ Hx) as (Ho & Hat & Hd & Hiff).
     rewrite Howed', Hs. assert (q =? p = false) as -> by (pose proof (Hother _ _ Hne Hx); lia).
     repeat split; auto.
-    + cbn [g_open]. rewrite in_removes1. intros [Hin _]. now apply Hiff.
-    + intros Hop. cbn [g_open]. rewrite in_removes1. split; [now apply Hiff | assumption].
+    + cbn [g' g_open]. rewrite Hgo. intros [Hin _]. now apply Hiff.
+    + intros Hop. cbn [g' g_open]. rewrite Hgo. cbn [fst]. split; [now apply Hiff | assumption].
   - intros x Hx. apply Howed' in Hx. destruct Hx as [Hx Hne]. destruct (O _ Hx) as [q Hq].
     exists q. rewrite lookup_remove_key. assert (x =? d = false) as -> by lia. exact Hq.
   - intros q x Hd. rewrite Hs in Hd. destruct (q =? p) eqn:E; [congruence|].
     specialize (R _ _ Hd). rewrite lookup_remove_key. destruct (x =? d) eqn:E2; [|exact R].
     assert (x = d) by lia. subst x. rewrite Hl in R. injection R as ->. lia.
-  - cbn [g_open g_neg]. intros x Hx. rewrite in_removes1 in *. intros [Hn2 _]. destruct Hx as [Hx _].
-    exact (ON _ Hx Hn2).
+  - cbn [g' g_open]. intros x t Hx. rewrite Hgo in Hx. destruct Hx as [Hx _]. exact (ON _ _ Hx).
   - intros x Hx. rewrite Howed' in Hx. cbn [In] in Hx.
     assert (Hc : d < next_conn m) by (apply F; now left).
     assert (Hx' : x = d \/ (owed g x \/ In x (keys (g_att g)) \/ In x (g_inb g) \/ In x (g_done g) \/
@@ -784,118 +1156,152 @@ Proof.
       left. split; [assumption | lia].
   - intros x q Hx Hat. cbn [In] in Hx. destruct Hx as [<-|Hx]; [|eauto].
     right. assert (q = p) by congruence. subst q. exact Hwit.
+  - intros q x ts Hq. rewrite Hs in Hq. destruct (q =? p); [rewrite Hq in Hst; discriminate | eapply NE; exact Hq].
+  - intros x t Hin. cbn [g' g_open] in Hin. apply Hgo in Hin. destruct Hin as [Hin _]. eauto.
+  - exact HK.
 Qed.
 
-Lemma no_record_is_inb m g c p : LInv m g -> In c (g_inb g) -> st_on_dial_failure (state_of m p) c = state_of m p.
+Lemma no_record_is_inb L m g c p : LInv L m g -> In c (g_inb g) -> st_on_dial_failure (state_of m p) c = state_of m p.
 Proof.
-  intros I Hin. destruct (inb_facts _ _ _ I Hin) as (_ & _ & _ & _ & Hatc & _).
-  destruct I as [P O R ON F INB D DN AN AS AC SU].
+  intros I Hin. destruct (inb_facts _ _ _ _ I Hin) as (_ & _ & _ & _ & Hatc & _).
+  destruct I as [P O R ON F INB D DN AN AS AC SU NE OI KI].
   destruct (dial_record (state_of m p)) as [d|] eqn:Ed.
   - apply (dial_record_on_failure_other _ _ d Ed). intros ->.
     specialize (R _ _ Ed). destruct (P _ _ R) as (_ & Hat & _). apply Hatc. eapply lookup_in_keys. exact Hat.
   - now apply dial_record_on_failure_none.
 Qed.
 
-Lemma linv_established_listener L m g p c :
-  LInv m g -> In c (g_inb g) ->
-  LInv (fst (do_established L m p c true false))
-       (gstep (TrEstablished p c true false) (snd (do_established L m p c true false)) g).
+Lemma first1_pairs (d : conn) (ts : list tr) : ts <> [] -> first1 (map fst (map (pair d) ts)) = [d].
+Proof. destruct ts; [congruence | reflexivity]. Qed.
+
+Lemma linv_established_listener L m g p c t :
+  LInv L m g -> installed L t = true -> In c (g_inb g) ->
+  LInv L (fst (do_established L m p c t true false))
+       (gstep (TrEstablished p c t true false) (snd (do_established L m p c t true false)) g).
 Proof.
-  intros I Hin. destruct (inb_facts _ _ _ I Hin) as (Hno & Hpc & Hac & Hdc & Hatc & Hlt).
-  pose proof (no_record_is_inb m g c p I Hin) as Hsame.
-  unfold do_established. rewrite Hpc, (remove_key_notin c (pending m) Hpc).
-  unfold do_established_checked. cbn [set_pending ins outs]. rewrite so_pending.
+  intros I Hi Hin. destruct (inb_facts _ _ _ _ I Hin) as (Hno & Hpc & Hac & Hdc & Hatc & Hlt).
+  pose proof (no_record_is_inb L m g c p I Hin) as Hsame.
+  pose proof (li_kinds _ _ _ I) as K.
+  unfold do_established. cbn [set_oerrs pending]. rewrite Hpc, (remove_key_notin c (pending m) Hpc).
+  set (mm := set_pending (set_oerrs m (remove_key c (oerrs m))) (pending m)).
+  assert (Hpm : pending mm = pending m) by reflexivity.
+  assert (Hsm : forall q, state_of mm q = state_of m q) by reflexivity.
+  assert (Ham : accepting mm = accepting m) by reflexivity.
+  assert (Hnm : next_conn mm = next_conn m) by reflexivity.
+  assert (Km : KInv L mm) by (eapply kinv_frame; [|exact K]; reflexivity).
+  unfold do_established_checked. change (ins mm) with (ins m). rewrite Hsm.
   destruct (limit_reached (max_in L) (ins m)).
   { (* rejected by the inbound limit: nothing changes but the id is used up *)
     rewrite Hsame.
     destruct (existsb _ _); cbn [fst snd]; unfold gstep;
-      cbn [flat_map app out_open out_dialneg out_cancel out_reject out_term out_rep]; rewrite !removes_nil;
-      apply (linv_inb_drop m g c); auto; intros q.
-    rewrite state_of_set_state, so_pending. destruct (q =? p) eqn:E; [|reflexivity].
+      cbn [ev_target flat_map app out_open out_dialneg out_cancel out_reject out_term out_rep map first1];
+      rewrite !removes_nil, removes_p_nil;
+      apply (linv_inb_drop L m g c); auto; try (eapply kinv_frame; [|exact K]; reflexivity); intros q.
+    rewrite state_of_set_state, Hsm. destruct (q =? p) eqn:E; [|reflexivity].
     assert (q = p) by lia. now subst q. }
-  destruct (state_of m p) as [r [[e|e]|]|d|d|[d|]] eqn:Es; cbn [st_on_established negb].
+  destruct (state_of m p) as [r [[e|e]|]|d ts|d|[d|]] eqn:Es; cbn [st_on_established negb].
   - (* already two connections: rejected *)
-    cbn [fst snd]. unfold gstep. cbn [flat_map app out_open out_dialneg out_cancel out_reject out_term out_rep].
-    rewrite !removes_nil. apply (linv_inb_drop m g c); auto.
+    cbn [fst snd]. unfold gstep.
+    cbn [ev_target flat_map app out_open out_dialneg out_cancel out_reject out_term out_rep map first1].
+    rewrite !removes_nil, removes_p_nil. apply (linv_inb_drop L m g c); auto.
   - (* connected with an own dial in flight: the record is another id, rejected *)
     assert (e =? c = false) as ->.
     { destruct (e =? c) eqn:E; [|reflexivity]. exfalso. assert (e = c) by lia. subst e.
-      destruct I as [P O R ON F INB D DN AN AS AC SU].
+      destruct I as [P O R ON F INB D DN AN AS AC SU NE OI KI].
       assert (Hr : dial_record (state_of m p) = Some c) by (rewrite Es; reflexivity).
       specialize (R _ _ Hr). congruence. }
-    cbn [negb fst snd]. unfold gstep. cbn [flat_map app out_open out_dialneg out_cancel out_reject out_term out_rep].
-    rewrite !removes_nil. apply (linv_inb_drop m g c); auto.
+    cbn [negb fst snd]. unfold gstep.
+    cbn [ev_target flat_map app out_open out_dialneg out_cancel out_reject out_term out_rep map first1].
+    rewrite !removes_nil, removes_p_nil. apply (linv_inb_drop L m g c); auto.
   - (* connected, room for a secondary *)
-    cbn [fst snd app]. unfold gstep. cbn [flat_map app out_open out_dialneg out_cancel out_reject out_term out_rep].
-    rewrite !removes_nil.
-    apply (linv_inb_accept (set_state m p (Connected r (Some (SecEst c)))) g c p); auto.
-    + apply (linv_same_record m g p (Connected r (Some (SecEst c)))); auto.
+    unfold est_finish. cbn [fst snd app]. unfold gstep.
+    cbn [ev_target flat_map app out_open out_dialneg out_cancel out_reject out_term out_rep map first1].
+    rewrite !removes_nil, removes_p_nil.
+    apply (linv_inb_accept L (set_state m p (Connected r (Some (SecEst c)))) g c p); auto.
+    + apply (linv_same_record L m g p (Connected r (Some (SecEst c)))); auto.
       * intros q. now rewrite state_of_set_state.
       * now rewrite Es.
-      * intros x. rewrite Es. split; discriminate.
-  - (* Opening d: the inbound connection wins, the open is cancelled *)
-    cbn [fst snd app]. unfold gstep. cbn [flat_map app out_open out_dialneg out_cancel out_reject out_term out_rep].
-    rewrite !removes_nil.
+      * intros x us. rewrite Es. split; discriminate.
+  - (* Opening d ts: the inbound connection wins, the open is cancelled on every transport *)
     assert (Hrec : dial_record (state_of m p) = Some d) by (rewrite Es; reflexivity).
-    assert (Hpd : lookup d (pending m) = Some p) by (destruct I as [_ _ R _ _ _ _ _ _ _ _ _]; auto).
-    assert (Hdo : In d (g_open g)).
-    { destruct I as [P _ _ _ _ _ _ _ _ _ _ _]. destruct (P _ _ Hpd) as (_ & _ & _ & Hiff). now apply Hiff. }
-    assert (Hdn : ~ In d (g_neg g)) by (destruct I as [_ _ _ ON _ _ _ _ _ _ _ _]; now apply ON).
-    rewrite <- (removes_notin d (g_neg g) Hdn).
+    assert (Hpd : lookup d (pending m) = Some p) by (apply (li_record _ _ _ I); exact Hrec).
+    assert (Hne : ts <> []) by (eapply (li_opening_ne _ _ _ I); exact Es).
+    assert (Hall : forall u, In (d, u) (g_open g) <-> In u ts).
+    { intros u. destruct (li_pending _ _ _ I _ _ Hpd) as (_ & _ & _ & Hiff). rewrite Hiff, Es. cbn [opening_on]. tauto. }
+    assert (Hinst : forall u, In u ts -> installed L u = true).
+    { intros u Hu. apply (li_open_inst _ _ _ I d u). now apply Hall. }
+    assert (Hdn : ~ In d (g_neg g)).
+    { destruct ts as [|u r]; [congruence|]. apply (li_open_neg _ _ _ I d u). apply Hall. now left. }
+    rewrite (forallb_installed _ _ Hinst). cbn [negb].
+    unfold est_finish. cbn [fst snd]. unfold gstep. cbn [ev_target].
+    rewrite !flat_map_app, ?fm_open_cancels, ?fm_dialneg_cancels, ?fm_cancel_cancels, ?fm_reject_cancels,
+      ?fm_term_cancels, ?fm_rep_cancels.
+    cbn [flat_map app out_open out_dialneg out_cancel out_reject out_term out_rep]. rewrite !app_nil_r.
+    rewrite (first1_pairs d ts Hne). rewrite !removes_nil. cbn [app].
     set (ma := set_accepting m (accepting m ++ [(c, (p, true))])).
-    assert (Ia : LInv ma (with_inb g (removes [c] (g_inb g)))).
-    { apply (linv_inb_accept m g c p); auto. }
-    apply (linv_conclude_super ma (with_inb g (removes [c] (g_inb g))) d p (Connected c None)); auto.
+    assert (Ia : LInv L ma (with_inb g (removes [c] (g_inb g)))).
+    { apply (linv_inb_accept L m g c p); auto. }
+    apply (linv_conclude_super L ma (with_inb g (removes [c] (g_inb g))) d p (Connected c None));
+      [exact Ia | exact Hpd | | | exact Hdn | reflexivity | | reflexivity | reflexivity | reflexivity | ].
     + exists c, true. cbn [ma set_accepting accepting]. rewrite lookup_app_last.
       destruct (lookup c (accepting m)) as [v|] eqn:El.
       * exfalso. apply Hac. eapply lookup_in_keys. exact El.
       * assert (c =? c = true) as -> by lia. reflexivity.
-    + intros q. rewrite so_accepting, so_pending, so_limits, state_of_set_state, so_pending. reflexivity.
+    + intros x. cbn [with_inb g_open]. rewrite in_removes_p. split.
+      * intros [H Hn2]. split; [exact H|]. intros E. destruct x as [a u]. cbn [fst] in E. subst a.
+        apply Hn2. apply in_map_pair. split; [reflexivity | now apply Hall].
+      * intros [H Hn2]. split; [exact H|]. intros E. destruct x as [a u]. apply in_map_pair in E.
+        destruct E as [-> _]. now apply Hn2.
+    + intros q. rewrite so_accepting, so_pending, so_limits, state_of_set_state, Hsm. reflexivity.
+    + eapply kinv_frame; [|exact K]; reflexivity.
   - (* Dialing d: the inbound connection becomes primary, the dial record is kept *)
     assert (d =? c = false) as ->.
     { destruct (d =? c) eqn:E; [|reflexivity]. exfalso. assert (d = c) by lia. subst d.
-      destruct I as [P O R ON F INB D DN AN AS AC SU].
+      destruct I as [P O R ON F INB D DN AN AS AC SU NE OI KI].
       assert (Hr : dial_record (state_of m p) = Some c) by (rewrite Es; reflexivity).
       specialize (R _ _ Hr). congruence. }
-    cbn [fst snd app]. unfold gstep. cbn [flat_map app out_open out_dialneg out_cancel out_reject out_term out_rep].
-    rewrite !removes_nil.
-    apply (linv_inb_accept (set_state m p (Connected c (Some (SecDial d)))) g c p); auto.
-    + apply (linv_same_record m g p (Connected c (Some (SecDial d)))); auto.
+    unfold est_finish. cbn [fst snd app]. unfold gstep.
+    cbn [ev_target flat_map app out_open out_dialneg out_cancel out_reject out_term out_rep map first1].
+    rewrite !removes_nil, removes_p_nil.
+    apply (linv_inb_accept L (set_state m p (Connected c (Some (SecDial d)))) g c p); auto.
+    + apply (linv_same_record L m g p (Connected c (Some (SecDial d)))); auto.
       * intros q. now rewrite state_of_set_state.
       * now rewrite Es.
-      * intros x. rewrite Es. split; discriminate.
+      * intros x us. rewrite Es. split; discriminate.
   - (* Disconnected with a dial record *)
     assert (d =? c = false) as ->.
     { destruct (d =? c) eqn:E; [|reflexivity]. exfalso. assert (d = c) by lia. subst d.
-      destruct I as [P O R ON F INB D DN AN AS AC SU].
+      destruct I as [P O R ON F INB D DN AN AS AC SU NE OI KI].
       assert (Hr : dial_record (state_of m p) = Some c) by (rewrite Es; reflexivity).
       specialize (R _ _ Hr). congruence. }
-    cbn [fst snd app]. unfold gstep. cbn [flat_map app out_open out_dialneg out_cancel out_reject out_term out_rep].
-    rewrite !removes_nil.
-    apply (linv_inb_accept (set_state m p (Connected c (Some (SecDial d)))) g c p); auto.
-    + apply (linv_same_record m g p (Connected c (Some (SecDial d)))); auto.
+    unfold est_finish. cbn [fst snd app]. unfold gstep.
+    cbn [ev_target flat_map app out_open out_dialneg out_cancel out_reject out_term out_rep map first1].
+    rewrite !removes_nil, removes_p_nil.
+    apply (linv_inb_accept L (set_state m p (Connected c (Some (SecDial d)))) g c p); auto.
+    + apply (linv_same_record L m g p (Connected c (Some (SecDial d)))); auto.
       * intros q. now rewrite state_of_set_state.
       * now rewrite Es.
-      * intros x. rewrite Es. split; discriminate.
+      * intros x us. rewrite Es. split; discriminate.
   - (* fully disconnected *)
-    cbn [fst snd app]. unfold gstep. cbn [flat_map app out_open out_dialneg out_cancel out_reject out_term out_rep].
-    rewrite !removes_nil.
-    apply (linv_inb_accept (set_state m p (Connected c None)) g c p); auto.
-    + apply (linv_same_record m g p (Connected c None)); auto.
+    unfold est_finish. cbn [fst snd app]. unfold gstep.
+    cbn [ev_target flat_map app out_open out_dialneg out_cancel out_reject out_term out_rep map first1].
+    rewrite !removes_nil, removes_p_nil.
+    apply (linv_inb_accept L (set_state m p (Connected c None)) g c p); auto.
+    + apply (linv_same_record L m g p (Connected c None)); auto.
       * intros q. now rewrite state_of_set_state.
       * now rewrite Es.
-      * intros x. rewrite Es. split; discriminate.
+      * intros x us. rewrite Es. split; discriminate.
 Qed.
 
-Lemma linv_accept_done m g c :
-  LInv m g -> In c (keys (accepting m)) ->
-  LInv (fst (do_accept_done m c true)) (gstep (AcceptDone c true) (snd (do_accept_done m c true)) g).
+Lemma linv_accept_done L m g c :
+  LInv L m g -> In c (keys (accepting m)) ->
+  LInv L (fst (do_accept_done m c true)) (gstep (AcceptDone c true) (snd (do_accept_done m c true)) g).
 Proof.
-  intros [P O R ON F INB D DN AN AS AC SU] Hin.
+  intros [P O R ON F INB D DN AN AS AC SU NE OI KI] Hin.
   destruct (keys_in_lookup _ _ Hin) as [[p b] Hl].
   unfold do_accept_done. rewrite Hl. cbn [fst snd].
-  unfold gstep. cbn [flat_map app out_open out_dialneg out_cancel out_reject out_term out_rep].
-  rewrite !removes_nil.
+  unfold gstep. cbn [ev_target flat_map app out_open out_dialneg out_cancel out_reject out_term out_rep].
+  rewrite !removes_nil, removes_p_nil.
   assert (Hlk : forall x, lookup x (remove_first c (accepting m)) = if x =? c then None else lookup x (accepting m)).
   { intros x. now apply lookup_remove_first. }
   assert (Hk : forall x, In x (keys (remove_first c (accepting m))) <-> In x (keys (accepting m)) /\ x <> c).
@@ -934,12 +1340,12 @@ Proof.
   cbn [app]. f_equal. lia.
 Qed.
 
-Lemma linv_alloc m g :
-  LInv m g -> LInv (bump_conn m) (gstep AllocConn [Ret (RET_ALLOC + next_conn m)] g).
+Lemma linv_alloc L m g :
+  LInv L m g -> LInv L (bump_conn m) (gstep AllocConn [Ret (RET_ALLOC + next_conn m)] g).
 Proof.
-  intros [P O R ON F INB D DN AN AS AC SU].
+  intros [P O R ON F INB D DN AN AS AC SU NE OI KI].
   unfold gstep. rewrite alloc_of_ret.
-  cbn [flat_map app out_open out_dialneg out_cancel out_reject out_term out_rep]. rewrite !removes_nil.
+  cbn [ev_target flat_map app out_open out_dialneg out_cancel out_reject out_term out_rep]. rewrite !removes_nil, removes_p_nil.
   assert (Hfresh : forall x, (owed g x \/ In x (keys (g_att g)) \/ In x (g_inb g) \/ In x (g_done g) \/
                               In x (keys (accepting m)) \/ In x (g_super g)) -> x <> next_conn m).
   { intros x Hx. specialize (F x Hx). lia. }
@@ -954,14 +1360,13 @@ Proof.
     repeat split; intros H; apply (Hfresh (next_conn m)); auto 10.
 Qed.
 
-
-Lemma gstep_shape_tcp a p os g :
-  dial_shape LISTEN a = SvTcp p -> gstep (CmdDialShape a) os g = gstep (CmdDialAddr p false) os g.
+Lemma gstep_shape_addr a p t os g :
+  ev_target (CmdDialShape a) = Some p -> gstep (CmdDialShape a) os g = gstep (CmdDialAddr p t false) os g.
 Proof. intros H. unfold gstep. now rewrite H. Qed.
 
 Lemma linv_dial_shape L m g a :
-  LInv m g ->
-  LInv (fst (do_dial_shape L m a)) (gstep (CmdDialShape a) (snd (do_dial_shape L m a)) g).
+  LInv L m g ->
+  LInv L (fst (do_dial_shape L m a false)) (gstep (CmdDialShape a) (snd (do_dial_shape L m a false)) g).
 Proof.
   intros I. unfold do_dial_shape.
   destruct (limit_reached (max_out L) (outs m)).
@@ -969,46 +1374,147 @@ Proof.
   destruct (dial_shape LISTEN a) as [code|p|p] eqn:Es.
   - cbn [fst snd].
     assert (Hcode : code < RET_ALLOC).
-    { unfold dial_shape in Es.
-      repeat match type of Es with
-             | context [match ?x with _ => _ end] => destruct x; try discriminate
-             | context [if ?b then _ else _] => destruct b; try discriminate
-             end; injection Es as <-; reflexivity. }
+    { destruct (DialShapeProofs.dial_shape_refusals _ _ _ Es) as [->|[->| ->]]; reflexivity. }
     rewrite gstep_quiet_cmd; [exact I | now apply quiet_ret | exact Logic.I].
-  - rewrite (gstep_shape_tcp a p _ g Es). now apply linv_dial_addr.
-  - cbn [fst snd]. rewrite gstep_quiet_cmd; [exact I | apply quiet_ret; reflexivity | exact Logic.I].
+  - rewrite (gstep_shape_addr a p TCP); [|cbn [ev_target]; now rewrite Es].
+    apply linv_dial_addr; [exact I | now apply (kind_of_tcp_shape a p)].
+  - rewrite (gstep_shape_addr a p WS); [|cbn [ev_target]; now rewrite Es].
+    apply linv_dial_addr; [exact I | now apply (kind_of_ws_shape a p)].
 Qed.
 
-Lemma linv_init : LInv init g0.
+Lemma linv_dial_addr_event L m g p t :
+  LInv L m g ->
+  LInv L (fst (do_dial_shape L m (canon p t) false))
+       (gstep (CmdDialAddr p t false) (snd (do_dial_shape L m (canon p t) false)) g).
+Proof.
+  intros I. pose proof (linv_dial_shape L m g (canon p t) I) as H.
+  rewrite (gstep_shape_addr (canon p t) p t) in H; [exact H|].
+  cbn [ev_target]. rewrite dial_shape_canon. destruct (t =? TCP); reflexivity.
+Qed.
+
+(* what the ghost reads is not changed by demoting the manager's result to a log line *)
+Lemma fm_demote {A} (f : out -> list A) os :
+  (forall o, f (demote o) = f o) -> flat_map f (map demote os) = flat_map f os.
+Proof. intros H. induction os as [|o r IH]; cbn [map flat_map]; [reflexivity|]. now rewrite H, IH. Qed.
+
+Lemma gstep_handle e e' os g :
+  ev_target e = ev_target e' ->
+  match e with HDialPeer _ _ _ _ | HDialAddr _ _ => True | _ => False end ->
+  match e' with CmdDialPeer _ _ _ | CmdDialShape _ => True | _ => False end ->
+  (ret_ok os = true \/ (flat_map out_open os = [] /\ flat_map out_dialneg os = [])) ->
+  gstep e (Ret RET_OK :: map demote os) g = gstep e' os g.
+Proof.
+  intros Ht He He' Hr. unfold gstep. rewrite Ht.
+  cbn [flat_map app out_open out_dialneg out_cancel out_reject out_term out_rep].
+  rewrite !fm_demote by (intros o; destruct o; reflexivity).
+  assert (Hret : ret_ok (Ret RET_OK :: map demote os) = true) by reflexivity.
+  rewrite Hret.
+  destruct Hr as [Hr | [H1 H2]].
+  - rewrite Hr. destruct (ev_target e'); destruct e; try contradiction; destruct e'; try contradiction; reflexivity.
+  - rewrite H1, H2. cbn [map app first1].
+    destruct (ev_target e'); [destruct (ret_ok os)|];
+      destruct e; try contradiction; destruct e'; try contradiction; reflexivity.
+Qed.
+
+Lemma dial_peer_outputs L m p ts :
+  (selects L m p = true -> choice_ok L m p ts = true) -> KInv L m ->
+  let os := snd (do_dial_peer L m p ts []) in
+  ret_ok os = true \/ (flat_map out_open os = [] /\ flat_map out_dialneg os = []).
+Proof.
+  intros Hsel K. unfold do_dial_peer.
+  destruct (limit_reached _ _) eqn:El; [right; split; reflexivity|].
+  destruct (p =? LOCAL) eqn:Ep; [right; split; reflexivity|].
+  destruct (can_dial (state_of m p)) eqn:Eg; try (right; split; reflexivity).
+  destruct (is_nil (addrs_of m p)) eqn:En; [right; split; reflexivity|].
+  specialize (Hsel (selects_ok _ _ _ El Ep Eg En)).
+  rewrite (open_calls_all L (next_conn m) ts (choice_installed _ _ _ _ K Hsel)). cbn [snd].
+  left. apply ret_ok_opens.
+Qed.
+
+Lemma dial_shape_outputs L m a :
+  let os := snd (do_dial_shape L m a false) in
+  ret_ok os = true \/ (flat_map out_open os = [] /\ flat_map out_dialneg os = []).
+Proof.
+  unfold do_dial_shape. destruct (limit_reached _ _); [right; split; reflexivity|].
+  assert (Hd : forall p t, let os := snd (do_dial_addr L m p t a false) in
+             ret_ok os = true \/ (flat_map out_open os = [] /\ flat_map out_dialneg os = [])).
+  { intros p t. unfold do_dial_addr. destruct (negb _); [right; split; reflexivity|].
+    destruct (can_dial _); cbn [snd]; [right; split; reflexivity | right; split; reflexivity | left; reflexivity]. }
+  destruct (dial_shape LISTEN a); [right; split; reflexivity | apply Hd | apply Hd].
+Qed.
+
+Lemma linv_hdial_peer L m g p ts clog :
+  LInv L m g -> (selects L m p = true -> choice_ok L m p ts = true) ->
+  LInv L (fst (do_hdial_peer L m p ts [] clog))
+       (gstep (HDialPeer p ts [] clog) (snd (do_hdial_peer L m p ts [] clog)) g).
+Proof.
+  intros I Hsel. unfold do_hdial_peer.
+  destruct (handle_gate m p) as [code| |] eqn:Eg.
+  - cbn [fst snd]. rewrite gstep_quiet_cmd; [exact I| |exact Logic.I]. apply quiet_ret.
+    unfold handle_gate in Eg. destruct (p =? LOCAL); [injection Eg as <-; reflexivity|].
+    destruct (can_dial _); try discriminate; [injection Eg as <-; reflexivity|].
+    destruct (is_nil _); [injection Eg as <-; reflexivity | discriminate].
+  - cbn [fst snd]. rewrite gstep_quiet_cmd; [exact I | apply quiet_ret; reflexivity | exact Logic.I].
+  - destruct clog.
+    + cbn [fst snd]. rewrite gstep_quiet_cmd; [exact I | apply quiet_ret; reflexivity | exact Logic.I].
+    + pose proof (linv_dial_peer L m g p ts I Hsel) as H.
+      pose proof (dial_peer_outputs L m p ts Hsel (li_kinds _ _ _ I)) as Ho.
+      destruct (do_dial_peer L m p ts []) as [m1 os]. cbn [fst snd] in *.
+      rewrite (gstep_handle (HDialPeer p ts [] false) (CmdDialPeer p ts []) os g); auto.
+Qed.
+
+Lemma linv_hdial_addr L m g a clog :
+  LInv L m g ->
+  LInv L (fst (do_hdial_addr L m a clog)) (gstep (HDialAddr a clog) (snd (do_hdial_addr L m a clog)) g).
+Proof.
+  intros I. unfold do_hdial_addr.
+  destruct (negb (existsb is_p2p a)).
+  { cbn [fst snd]. rewrite gstep_quiet_cmd; [exact I | apply quiet_ret; reflexivity | exact Logic.I]. }
+  destruct clog.
+  { cbn [fst snd]. rewrite gstep_quiet_cmd; [exact I | apply quiet_ret; reflexivity | exact Logic.I]. }
+  pose proof (linv_dial_shape L m g a I) as H.
+  pose proof (dial_shape_outputs L m a) as Ho.
+  destruct (do_dial_shape L m a false) as [m1 os]. cbn [fst snd] in *.
+  rewrite (gstep_handle (HDialAddr a false) (CmdDialShape a) os g); auto.
+Qed.
+
+Lemma linv_init L : LInv L init g0.
 Proof.
   split; cbn; try (intros; discriminate); try (intros; tauto); try constructor.
-  - intros c [H|H]; destruct H.
-  - intros c H. unfold owed in H. cbn in H. intuition.
+  - intros c [[t H]|H]; destruct H.
+  - intros c H. unfold owed in H. cbn in H. destruct H as [[[t []]|[]]|H]; intuition.
+  - intros p a H. destruct H.
 Qed.
 
 Theorem linv_step L m g e :
-  LInv m g -> feas m g e -> LInv (fst (step L m e)) (gstep e (snd (step L m e)) g).
+  LInv L m g -> feas L m g e -> LInv L (fst (step L m e)) (gstep e (snd (step L m e)) g).
 Proof.
-  intros I He. destruct e as [p f|p f|p|c pa|c f|c pa|p c lst f|c|c ok|p c| |a]; cbn [step feas] in *.
-  - subst f. now apply linv_dial_peer.
-  - subst f. now apply linv_dial_addr.
+  intros I He.
+  destruct e as [p ts fl|p t f|p t|c t pa|c t f|c t pa|p c t lst f|c t|c ok|p c| |a|p ts fl clog|a clog];
+    cbn [step feas] in *.
+  - destruct He as [-> Hsel]. now apply linv_dial_peer.
+  - subst f. now apply linv_dial_addr_event.
   - cbn [fst snd]. rewrite gstep_quiet_cmd; [|apply quiet_nil|exact Logic.I].
-    eapply linv_frame; [| | | |exact I]; reflexivity.
-  - destruct He as [H1 H2]. now apply linv_dial_failure.
-  - destruct He as [-> H]. now apply linv_opened.
-  - destruct He as [H1 H2]. now apply linv_open_failure.
-  - destruct He as [-> H]. destruct lst.
+    destruct (installed L (kind_of (canon p t))) eqn:E; [now apply linv_add_addr | exact I].
+  - destruct He as (Hi & H1 & H2). rewrite Hi. now apply linv_dial_failure.
+  - destruct He as (-> & Hi & H). rewrite Hi. now apply linv_opened.
+  - destruct He as (Hi & H1 & H2). rewrite Hi. now apply linv_open_failure.
+  - destruct He as (-> & Hi & H). rewrite Hi. destruct lst.
     + now apply linv_established_listener.
     + destruct H as [H1 H2]. now apply linv_established_dialer.
-  - destruct (limit_reached (max_in L) (ins m)); cbn [fst snd];
-      (rewrite gstep_quiet_cmd; [exact I| |exact Logic.I]);
-      unfold quiet, alloc_of; cbn; repeat split.
+  - destruct (installed L t).
+    + destruct (limit_reached (max_in L) (ins m)); cbn [fst snd];
+        (rewrite gstep_quiet_cmd; [exact I| |exact Logic.I]);
+        unfold quiet, alloc_of; cbn; repeat split.
+    + cbn [fst snd]. rewrite gstep_quiet_cmd; [exact I | apply quiet_nil | exact Logic.I].
   - destruct He as [-> H]. now apply linv_accept_done.
-  - pose proof (linv_closed m g p c I) as K. destruct (do_closed m p c) as [m1 rep]. cbn [fst snd] in *.
+  - pose proof (linv_closed L m g p c I) as K. destruct (do_closed m p c) as [m1 rep]. cbn [fst snd] in *.
     rewrite gstep_quiet_cmd; [exact K| |exact Logic.I].
     destruct rep; unfold quiet, alloc_of; cbn; repeat split.
   - cbn [fst snd]. now apply linv_alloc.
   - now apply linv_dial_shape.
+  - destruct He as [-> Hsel]. now apply linv_hdial_peer.
+  - now apply linv_hdial_addr.
 Qed.
 
 (* ---------- histories ---------- *)
@@ -1022,11 +1528,11 @@ Fixpoint lrun (L : limits) (m : mgr) (g : ghost) (es : list ev) : mgr * ghost :=
 Fixpoint feasible (L : limits) (m : mgr) (g : ghost) (es : list ev) : Prop :=
   match es with
   | [] => True
-  | e :: t => feas m g e /\ feasible L (fst (step L m e)) (gstep e (snd (step L m e)) g) t
+  | e :: t => feas L m g e /\ feasible L (fst (step L m e)) (gstep e (snd (step L m e)) g) t
   end.
 
 Theorem linv_run L es : forall m g,
-  LInv m g -> feasible L m g es -> LInv (fst (lrun L m g es)) (snd (lrun L m g es)).
+  LInv L m g -> feasible L m g es -> LInv L (fst (lrun L m g es)) (snd (lrun L m g es)).
 Proof.
   induction es as [|e t IH]; intros m g I Hf; cbn [lrun fst snd]; [exact I|].
   destruct Hf as [H1 H2]. apply IH; [now apply linv_step | exact H2].
@@ -1051,15 +1557,18 @@ Qed.
 Theorem at_most_one_outcome L es :
   feasible L init g0 es -> NoDup (terminals L init es).
 Proof.
-  intros Hf. pose proof (linv_run L es init g0 linv_init Hf) as I.
-  destruct I as [_ _ _ _ _ _ _ DN _ _ _ _]. rewrite done_is_terminals in DN.
+  intros Hf. pose proof (linv_run L es init g0 (linv_init L) Hf) as I.
+  pose proof (li_done_nodup _ _ _ I) as DN. rewrite done_is_terminals in DN.
   cbn [g0 g_done] in DN. now rewrite app_nil_r in DN.
 Qed.
 
 Definition quiescent (m : mgr) (g : ghost) : Prop :=
   g_open g = [] /\ g_neg g = [] /\ accepting m = [].
 
-(* T2 — never silence: once the transport owes nothing and no accept future is pending, every
+Lemma quiescent_not_owed m g c : quiescent m g -> ~ owed g c.
+Proof. intros (Ho & Hn & _) [[t H]|H]; [rewrite Ho in H | rewrite Hn in H]; destruct H. Qed.
+
+(* T2 — never silence: once the transports owe nothing and no accept future is pending, every
    accepted dial attempt has been named by a terminal output, or was superseded by a reported
    connection with the same peer, or belongs to the recorded finding (rejected by the limit) *)
 Theorem no_silence L es :
@@ -1069,14 +1578,13 @@ Theorem no_silence L es :
   forall c p, lookup c (g_att g) = Some p ->
     In c (g_done g) \/ (In c (g_super g) /\ In p (g_rep g)) \/ In c (g_limrej g).
 Proof.
-  intros Hf. pose proof (linv_run L es init g0 linv_init Hf) as I.
+  intros Hf. pose proof (linv_run L es init g0 (linv_init L) Hf) as I.
   destruct (lrun L init g0 es) as [m g]. cbn [fst snd] in I.
-  intros (Ho & Hn & Ha) c p Hat.
-  destruct I as [P O R ON F INB D DN AN AS AC SU].
-  destruct (AC _ _ Hat) as [H|[H|[H|[H|H]]]].
-  - exfalso. unfold owed in H. rewrite Ho, Hn in H. destruct H as [[]|[]].
+  intros Hq c p Hat. pose proof Hq as (Ho & Hn & Ha).
+  destruct (li_accounted _ _ _ I _ _ Hat) as [H|[H|[H|[H|H]]]].
+  - exfalso. exact (quiescent_not_owed _ _ _ Hq H).
   - now left.
-  - right. left. split; [assumption|]. destruct (SU _ _ H Hat) as [Hr|(c' & b & Hl)]; [assumption|].
+  - right. left. split; [assumption|]. destruct (li_super _ _ _ I _ _ H Hat) as [Hr|(c' & b & Hl)]; [assumption|].
     rewrite Ha in Hl. discriminate.
   - right. now right.
   - rewrite Ha in H. destruct H.
@@ -1090,24 +1598,400 @@ Theorem no_wedge L es :
   let '(m, g) := lrun L init g0 es in
   quiescent m g -> forall p, settled (state_of m p).
 Proof.
-  intros Hf. pose proof (linv_run L es init g0 linv_init Hf) as I.
+  intros Hf. pose proof (linv_run L es init g0 (linv_init L) Hf) as I.
   destruct (lrun L init g0 es) as [m g]. cbn [fst snd] in I.
-  intros (Ho & Hn & Ha) p. unfold settled.
+  intros Hq p. unfold settled.
   destruct (dial_record (state_of m p)) as [c|] eqn:E; [|reflexivity].
-  exfalso. destruct I as [P O R ON F INB D DN AN AS AC SU].
-  specialize (R _ _ E). destruct (P _ _ R) as (H & _). unfold owed in H. rewrite Ho, Hn in H.
-  destruct H as [[]|[]].
+  exfalso. pose proof (li_record _ _ _ I _ _ E) as R. destruct (li_pending _ _ _ I _ _ R) as (H & _).
+  exact (quiescent_not_owed _ _ _ Hq H).
 Qed.
 
-(* every pending attempt is owed an answer by the transport: nobody waits for nothing, at any
+(* every pending attempt is owed an answer by a transport: nobody waits for nothing, at any
    point of any feasible history (the invariant behind T3) *)
 Theorem pending_is_owed L es :
   feasible L init g0 es ->
   let '(m, g) := lrun L init g0 es in
   forall p c, dial_record (state_of m p) = Some c -> owed g c.
 Proof.
-  intros Hf. pose proof (linv_run L es init g0 linv_init Hf) as I.
+  intros Hf. pose proof (linv_run L es init g0 (linv_init L) Hf) as I.
   destruct (lrun L init g0 es) as [m g]. cbn [fst snd] in I.
-  intros p c E. destruct I as [P O R ON F INB D DN AN AS AC SU].
-  specialize (R _ _ E). now destruct (P _ _ R).
+  intros p c E. pose proof (li_record _ _ _ I _ _ E) as R. now destruct (li_pending _ _ _ I _ _ R).
+Qed.
+
+(* ---------- several transports ---------- *)
+
+(* a peer in the opening phase waits for a non-empty set of installed transports, and each of
+   them owes an answer: no transport of the set was skipped by dial() *)
+Theorem opening_transports_owed L m g p c ts :
+  LInv L m g -> state_of m p = Opening c ts ->
+  ts <> [] /\ forall u, In u ts -> installed L u = true /\ In (c, u) (g_open g).
+Proof.
+  intros I Hs. split; [eapply (li_opening_ne _ _ _ I); exact Hs|].
+  assert (Hr : dial_record (state_of m p) = Some c) by (rewrite Hs; reflexivity).
+  pose proof (li_record _ _ _ I _ _ Hr) as R. destruct (li_pending _ _ _ I _ _ R) as (_ & _ & _ & Hiff).
+  intros u Hu. assert (Hin : In (c, u) (g_open g)) by (apply Hiff; rewrite Hs; exact Hu).
+  split; [exact (li_open_inst _ _ _ I _ _ Hin) | exact Hin].
+Qed.
+
+(* what one OpenFailure does: the failure of a transport that is not the last one produces no
+   output and keeps the attempt owed on the remaining transports; the failure of the last one is
+   reported (with the errors kept so far) and ends the attempt *)
+Theorem open_failure_step L m g c t pa :
+  LInv L m g -> feas L m g (TrOpenFailure c t pa) ->
+  exists ts, state_of m pa = Opening c ts /\ In t ts /\
+    let '(m', os) := step L m (TrOpenFailure c t pa) in
+    let g' := gstep (TrOpenFailure c t pa) os g in
+    match remove_tr t ts with
+    | [] => os = [ProtoDialFailure pa; EvOpenFailure c (errs_of m c + 1)] /\
+            state_of m' pa = Disconnected None /\ ~ owed g' c /\ In c (g_done g')
+    | ts' => os = [] /\ state_of m' pa = Opening c ts' /\
+             (forall u, In (c, u) (g_open g') <-> In u ts') /\ errs_of m' c = errs_of m c + 1
+    end.
+Proof.
+  intros I (Hi & Hin & Hat).
+  destruct (owed_open_facts _ _ _ _ _ I Hin) as (p & ts & Hp & Hat' & Hop & Hts & Hnn & Hall & _).
+  assert (p = pa) by congruence. subst p.
+  exists ts. split; [exact Hop|]. split; [exact Hts|].
+  cbn [step]. rewrite Hi. unfold do_open_failure. rewrite add_addr_pending, Hp, so_add_addr, Hop.
+  assert (mem t ts = true) as -> by now apply mem_in.
+  destruct (remove_tr t ts) as [|v r] eqn:Er.
+  - cbn [fst snd]. unfold errs_of at 1. rewrite add_addr_oerrs. fold (errs_of m c). split; [reflexivity|].
+    split; [rewrite so_oerrs, so_pending, state_of_set_state; assert (pa =? pa = true) as -> by lia; reflexivity|].
+    unfold gstep. cbn [ev_target flat_map app out_open out_dialneg out_cancel out_reject out_term out_rep g_done].
+    split; [|now left].
+    unfold owed. cbn [g_open g_neg]. rewrite removes_nil. intros [[u Hu]|Hn2]; [|contradiction].
+    apply in_removes_p in Hu. destruct Hu as [Hu Hne]. cbn [In] in Hne.
+    assert (Hut : u <> t) by (intros ->; tauto).
+    assert (Hx : In u (remove_tr t ts)) by (apply in_remove_tr; split; [now apply Hall | exact Hut]).
+    rewrite Er in Hx. destruct Hx.
+  - cbn [fst snd]. split; [reflexivity|].
+    split; [rewrite so_oerrs, state_of_set_state; assert (pa =? pa = true) as -> by lia; reflexivity|].
+    split.
+    + intros u. unfold gstep.
+      cbn [ev_target flat_map app out_open out_dialneg out_cancel out_reject out_term out_rep g_open].
+      rewrite in_removes_p, <- Er, in_remove_tr, Hall. cbn [In]. split.
+      * intros [H1 H2]. split; [exact H1|]. intros ->. tauto.
+      * intros [H1 H2]. split; [exact H1|]. intros [[= E]|[]]. congruence.
+    + unfold errs_of. cbn [set_oerrs oerrs]. rewrite lookup_insert_key.
+      assert (c =? c = true) as -> by lia. rewrite add_addr_oerrs. reflexivity.
+Qed.
+
+(* ConnectionOpened: cancel(c) is called on every transport still in the set, negotiate on the
+   winner only; afterwards nothing of the opening phase is owed for c, so no further open-phase
+   event for c can arrive *)
+Theorem opened_step L m g c t :
+  LInv L m g -> feas L m g (TrOpened c t false) ->
+  exists p ts, lookup c (pending m) = Some p /\ state_of m p = Opening c ts /\ In t ts /\
+    let '(m', os) := step L m (TrOpened c t false) in
+    let g' := gstep (TrOpened c t false) os g in
+    os = map (CallCancel c) ts ++ [CallNegotiate c t] /\
+    state_of m' p = Dialing c /\ lookup c (pending m') = Some p /\
+    (forall u, ~ In (c, u) (g_open g')) /\ In c (g_neg g') /\
+    (forall u f, ~ feas L m' g' (TrOpened c u f)) /\
+    (forall u pa, ~ feas L m' g' (TrOpenFailure c u pa)).
+Proof.
+  intros I (_ & Hi & Hin).
+  destruct (owed_open_facts _ _ _ _ _ I Hin) as (p & ts & Hp & Hat & Hop & Hts & Hnn & Hall & Hinst).
+  exists p, ts. repeat (split; [assumption|]).
+  cbn [step]. rewrite Hi. unfold do_opened. cbn [set_oerrs pending]. rewrite Hp.
+  rewrite so_add_addr, so_pending, so_oerrs, Hop, (forallb_installed _ _ Hinst). cbn [negb fst snd].
+  assert (Hno : forall u, ~ In (c, u) (g_open (gstep (TrOpened c t false) (map (CallCancel c) ts ++ [CallNegotiate c t]) g))).
+  { intros u. unfold gstep. cbn [ev_target g_open].
+    rewrite !flat_map_app, fm_open_cancels, fm_cancel_cancels.
+    cbn [flat_map app out_open out_cancel]. rewrite app_nil_r, in_removes_p. intros [Hu Hne].
+    apply Hne. right. apply in_map_pair. split; [reflexivity | now apply Hall]. }
+  split; [reflexivity|].
+  split; [rewrite so_pending, state_of_set_state; assert (p =? p = true) as -> by lia; reflexivity|].
+  split; [cbn [set_pending pending]; rewrite lookup_insert_key; assert (c =? c = true) as -> by lia; reflexivity|].
+  split; [exact Hno|].
+  split.
+  { unfold gstep. cbn [g_neg]. rewrite !flat_map_app, fm_dialneg_cancels. cbn [flat_map app out_dialneg]. now left. }
+  split.
+  - intros u f (_ & _ & Hu). exact (Hno u Hu).
+  - intros u pa (_ & Hu & _). exact (Hno u Hu).
+Qed.
+
+(* an inbound connection established while the peer is being opened cancels the attempt on every
+   transport of the set and leaves nothing owed for it *)
+Theorem inbound_supersedes_step L m g p c t d ts :
+  LInv L m g -> feas L m g (TrEstablished p c t true false) ->
+  state_of m p = Opening d ts -> limit_reached (max_in L) (ins m) = false ->
+  let '(m', os) := step L m (TrEstablished p c t true false) in
+  let g' := gstep (TrEstablished p c t true false) os g in
+  os = map (CallCancel d) ts ++ [CallAccept c t] /\
+  state_of m' p = Connected c None /\ lookup d (pending m') = None /\
+  (forall u, ~ In (d, u) (g_open g')) /\ ~ owed g' d /\ In d (g_super g').
+Proof.
+  intros I (_ & Hi & Hin) Es Hlim.
+  destruct (inb_facts _ _ _ _ I Hin) as (Hno & Hpc & Hac & Hdc & Hatc & Hlt).
+  destruct (opening_transports_owed _ _ _ _ _ _ I Es) as [Hne Hown].
+  assert (Hinst : forall u, In u ts -> installed L u = true) by (intros u Hu; now destruct (Hown u Hu)).
+  assert (Hdn : ~ In d (g_neg g)).
+  { destruct ts as [|u r]; [congruence|]. apply (li_open_neg _ _ _ I d u). apply Hown. now left. }
+  cbn [step]. rewrite Hi. unfold do_established. cbn [set_oerrs pending].
+  rewrite Hpc, (remove_key_notin c (pending m) Hpc).
+  unfold do_established_checked. cbn [set_pending set_oerrs ins]. rewrite Hlim.
+  rewrite so_pending, so_oerrs, Es. cbn [st_on_established negb].
+  rewrite (forallb_installed _ _ Hinst). cbn [negb]. unfold est_finish. cbn [fst snd].
+  assert (Hgo : forall u, ~ In (d, u) (g_open (gstep (TrEstablished p c t true false)
+                                                  (map (CallCancel d) ts ++ [CallAccept c t]) g))).
+  { intros u. unfold gstep. cbn [ev_target g_open].
+    rewrite !flat_map_app, fm_open_cancels, fm_cancel_cancels.
+    cbn [flat_map app out_open out_cancel]. rewrite app_nil_r, in_removes_p. intros [Hu Hn2].
+    apply Hn2. apply in_map_pair. split; [reflexivity|].
+    assert (Hr : dial_record (state_of m p) = Some d) by (rewrite Es; reflexivity).
+    pose proof (li_record _ _ _ I _ _ Hr) as R. destruct (li_pending _ _ _ I _ _ R) as (_ & _ & _ & Hiff).
+    apply Hiff in Hu. rewrite Es in Hu. exact Hu. }
+  split; [reflexivity|].
+  split; [rewrite so_accepting, so_pending, so_limits, state_of_set_state; assert (p =? p = true) as -> by lia; reflexivity|].
+  split; [cbn [set_accepting set_pending set_limits set_state pending]; rewrite lookup_remove_key;
+          assert (d =? d = true) as -> by lia; reflexivity|].
+  split; [exact Hgo|].
+  split.
+  - intros [[u Hu]|Hn2]; [exact (Hgo u Hu)|].
+    unfold gstep in Hn2. cbn [g_neg] in Hn2.
+    rewrite !flat_map_app, fm_dialneg_cancels in Hn2. cbn [flat_map app out_dialneg] in Hn2.
+    rewrite removes_nil in Hn2. contradiction.
+  - unfold gstep. cbn [g_super]. rewrite !flat_map_app, fm_cancel_cancels. cbn [flat_map app out_cancel].
+    rewrite app_nil_r, (first1_pairs d ts Hne). now left.
+Qed.
+
+(* no panic on a feasible history: a debug assertion / expect is never reached by an event the
+   transport contract allows *)
+Theorem no_stuck_feasible L m g e s :
+  LInv L m g -> feas L m g e -> ~ In (Stuck s) (snd (step L m e)).
+Proof.
+  intros I He Hs. destruct (stuck_only_on_inconsistent_ids L m e s Hs) as
+    [(c & t & f & -> & Hp)|[(p & c & t & l & f & q & -> & Hp & Hne)|(p & c & ts & t & Hop & Ht & Hi)]].
+  - destruct He as (_ & _ & Hin). destruct (owed_open_facts _ _ _ _ _ I Hin) as (p & ts & Hp' & _). congruence.
+  - destruct He as (_ & _ & H). destruct l.
+    + destruct (inb_facts _ _ _ _ I H) as (_ & Hpc & _). congruence.
+    + destruct H as [H1 H2]. destruct (owed_neg_facts _ _ _ _ _ I H1 H2) as (Hp' & _). congruence.
+  - destruct (opening_transports_owed _ _ _ _ _ _ I Hop) as [_ H]. destruct (H t Ht) as [Hi' _]. congruence.
+Qed.
+
+(* why the invariant "only installed kinds are stored" matters: had the store an address of a
+   transport that is not installed, dial() would put the transport into the Opening set without
+   calling open() on anything; Ok is returned, nothing is owed, the peer waits for ever *)
+Theorem uninstalled_transport_refuted :
+  exists L m p ts,
+    ~ KInv L m /\ choice_ok L m p ts = true /\
+    let '(m', os) := do_dial_peer L m p ts [] in
+    os = [Ret RET_OK] /\ state_of m' p = Opening (next_conn m) ts /\
+    lookup (next_conn m) (pending m') = Some p /\
+    (forall g, g_open (gstep (CmdDialPeer p ts []) os g) = g_open g /\
+               g_neg (gstep (CmdDialPeer p ts []) os g) = g_neg g).
+Proof.
+  exists (mkLimits None None [TCP]), (set_known init [(1, [canon 1 WS])]), 1, [WS].
+  split.
+  - intros K. specialize (K 1 (canon 1 WS) (or_introl eq_refl)). discriminate.
+  - split; [reflexivity|]. cbn. repeat split.
+    + apply removes_p_nil.
+    + apply removes_nil.
+Qed.
+
+(* ---------- the user-facing handle ---------- *)
+
+(* the handle's synchronous gate and the manager's own checks, on the same state: the only way
+   the manager refuses a command the handle queued is the connection limit *)
+Theorem handle_gate_agrees L m p ts fl :
+  match handle_gate m p with
+  | HQueue =>
+      (limit_reached (max_out L) (outs m) = true /\ do_dial_peer L m p ts fl = (m, [Ret RET_LIMIT])) \/
+      (limit_reached (max_out L) (outs m) = false /\ selects L m p = true /\
+       snd (do_dial_peer L m p ts fl) =
+         fst (open_calls L (next_conn m) ts fl) ++
+         [Ret (if snd (open_calls L (next_conn m) ts fl) then RET_OK else RET_TRANSPORT)])
+  | HInProgress =>
+      do_dial_peer L m p ts fl = (m, [Ret RET_OK]) \/ do_dial_peer L m p ts fl = (m, [Ret RET_LIMIT])
+  | HErr code =>
+      do_dial_peer L m p ts fl = (m, [Ret code]) \/ do_dial_peer L m p ts fl = (m, [Ret RET_LIMIT])
+  end.
+Proof.
+  unfold handle_gate, do_dial_peer, selects.
+  destruct (limit_reached (max_out L) (outs m)) eqn:El.
+  - destruct (p =? LOCAL); [now right|]. destruct (can_dial _); try (now right).
+    destruct (is_nil _); [now right | left; auto].
+  - destruct (p =? LOCAL); [now left|]. destruct (can_dial _); try (now left).
+    destruct (is_nil _); [now left|]. right. split; [reflexivity|]. split; [reflexivity|].
+    destruct (open_calls L (next_conn m) ts fl) as [calls ok]. destruct ok; reflexivity.
+Qed.
+
+(* what an Ok from TransportManagerHandle::dial means, and that an error changes nothing *)
+Theorem handle_gate_sound L m g p ts clog :
+  LInv L m g -> feas L m g (HDialPeer p ts [] clog) ->
+  let '(m', os) := step L m (HDialPeer p ts [] clog) in
+  let g' := gstep (HDialPeer p ts [] clog) os g in
+  (In (Ret RET_OK) os ->
+     (* an attempt for p is in progress: an outcome for it is still owed *)
+     (exists c, dial_record (state_of m p) = Some c /\ owed g c /\ m' = m /\ os = [Ret RET_OK]) \/
+     (* or the manager executes dial(p) in the same state and really attempts it *)
+     (limit_reached (max_out L) (outs m) = false /\ ts <> [] /\
+      os = Ret RET_OK :: map (CallOpen (next_conn m)) ts ++ [Logged RET_OK] /\
+      state_of m' p = Opening (next_conn m) ts /\
+      (forall u, In u ts -> In (next_conn m, u) (g_open g')) /\
+      lookup (next_conn m) (g_att g') = Some p) \/
+     (* or the manager refuses it for the connection limit: the error is only logged, nothing is
+        attempted and nothing will ever be reported for this request (known finding class 2) *)
+     (limit_reached (max_out L) (outs m) = true /\ m' = m /\ os = [Ret RET_OK; Logged RET_LIMIT] /\ g' = g)) /\
+  (forall code, code <> RET_OK -> In (Ret code) os -> m' = m /\ os = [Ret code]).
+Proof.
+  intros I (_ & Hsel). cbn [step]. unfold do_hdial_peer.
+  pose proof (handle_gate_agrees L m p ts []) as Hag.
+  destruct (handle_gate m p) as [code| |] eqn:Eg.
+  - cbn [fst snd]. split.
+    + intros [[= E]|[]]. exfalso. unfold handle_gate in Eg. destruct (p =? LOCAL); [injection Eg as <-; discriminate|].
+      destruct (can_dial _); try discriminate; [injection Eg as <-; discriminate|].
+      destruct (is_nil _); [injection Eg as <-; discriminate | discriminate].
+    + intros c Hc [[= E]|[]]. subst c. auto.
+  - split.
+    + intros _. left. unfold handle_gate in Eg. destruct (p =? LOCAL); [discriminate|].
+      destruct (state_of m p) as [r sc|d us|d|[d|]] eqn:Es; cbn [can_dial] in Eg; try discriminate;
+        try (destruct (is_nil _); discriminate).
+      * exists d. assert (Hr : dial_record (state_of m p) = Some d) by (rewrite Es; reflexivity).
+        rewrite <- Es. split; [exact Hr|]. split; [|auto].
+        destruct (li_pending _ _ _ I _ _ (li_record _ _ _ I _ _ Hr)) as (H & _). exact H.
+      * exists d. assert (Hr : dial_record (state_of m p) = Some d) by (rewrite Es; reflexivity).
+        rewrite <- Es. split; [exact Hr|]. split; [|auto].
+        destruct (li_pending _ _ _ I _ _ (li_record _ _ _ I _ _ Hr)) as (H & _). exact H.
+      * exists d. assert (Hr : dial_record (state_of m p) = Some d) by (rewrite Es; reflexivity).
+        rewrite <- Es. split; [exact Hr|]. split; [|auto].
+        destruct (li_pending _ _ _ I _ _ (li_record _ _ _ I _ _ Hr)) as (H & _). exact H.
+    + intros c Hc [[= E]|[]]. congruence.
+  - destruct clog.
+    { cbn [fst snd]. split; [intros [[= E]|[]]|]. intros c Hc [[= E]|[]]. subst c. auto. }
+    destruct Hag as [[Hl Hd]|(Hl & Hs & Hd)].
+    + rewrite Hd. cbn [map demote]. split.
+      * intros _. right. right. repeat split; auto.
+        rewrite gstep_quiet_cmd; [reflexivity| |exact Logic.I]. unfold quiet, alloc_of. cbn. repeat split.
+      * intros c Hc [[= E]|[[= E]|[]]]. congruence.
+    + specialize (Hsel Hs). pose proof (li_kinds _ _ _ I) as K.
+      destruct (choice_ok_facts _ _ _ _ Hsel) as [Hne _].
+      pose proof (choice_installed _ _ _ _ K Hsel) as Hinst.
+      assert (Hp : (p =? LOCAL) = false).
+      { unfold handle_gate in Eg. destruct (p =? LOCAL); [discriminate | reflexivity]. }
+      assert (Hst : state_of m p = Disconnected None).
+      { unfold handle_gate in Eg. rewrite Hp in Eg. apply can_dial_ok. destruct (can_dial _); try discriminate. reflexivity. }
+      pose proof (redial_attempted L m p ts Hst ltac:(lia) Hl K Hsel) as Hre.
+      destruct (do_dial_peer L m p ts []) as [m1 os] eqn:Ed. destruct Hre as (_ & Hos & Hs1 & Hp1 & Hn1).
+      subst os. split.
+      * intros _. right. left. split; [exact Hl|]. split; [exact Hne|].
+        split; [rewrite map_app, map_map; cbn [map demote]; f_equal; f_equal; apply map_ext; reflexivity|].
+        split; [exact Hs1|].
+        assert (Hg : gstep (HDialPeer p ts [] false) (Ret RET_OK :: map demote (map (CallOpen (next_conn m)) ts ++ [Ret RET_OK])) g
+                     = gstep (CmdDialPeer p ts []) (map (CallOpen (next_conn m)) ts ++ [Ret RET_OK]) g).
+        { apply gstep_handle; try exact Logic.I; [reflexivity|]. left. apply ret_ok_opens. }
+        rewrite Hg. unfold gstep. cbn [ev_target g_open g_att]. rewrite ret_ok_opens.
+        rewrite !flat_map_app, fm_open_opens, fm_dialneg_opens. cbn [flat_map app out_open out_dialneg].
+        rewrite !app_nil_r, map_fst_pairs. split.
+        -- intros u Hu. rewrite in_app_iff. left. apply in_map_pair. auto.
+        -- destruct ts as [|u r]; [congruence|]. cbn [map first1 app lookup].
+           assert (next_conn m =? next_conn m = true) as -> by lia. reflexivity.
+      * intros c Hc [[= E]|Hin]; [congruence|]. exfalso.
+        apply in_map_iff in Hin. destruct Hin as (o & Ho & Hin). destruct o; cbn [demote] in Ho; discriminate.
+Qed.
+
+(* TransportManagerHandle::dial_address only looks for a /p2p component; everything else is decided
+   by the manager when it executes the command, and its verdict is only logged *)
+Theorem handle_dial_address L m a :
+  (existsb is_p2p a = false -> step L m (HDialAddr a false) = (m, [Ret RET_PEER_ID_MISSING])) /\
+  (existsb is_p2p a = true ->
+   step L m (HDialAddr a false) =
+     (fst (do_dial_shape L m a false), Ret RET_OK :: map demote (snd (do_dial_shape L m a false)))).
+Proof.
+  cbn [step]. unfold do_hdial_addr. split; intros ->; cbn [negb]; [reflexivity|].
+  destruct (do_dial_shape L m a false). reflexivity.
+Qed.
+
+(* ---------- the same, over every feasible history ---------- *)
+Definition Reach (L : limits) (m : mgr) (g : ghost) : Prop :=
+  exists es, feasible L init g0 es /\ lrun L init g0 es = (m, g).
+
+Lemma reach_linv L m g : Reach L m g -> LInv L m g.
+Proof.
+  intros (es & Hf & E). pose proof (linv_run L es init g0 (linv_init L) Hf) as I. now rewrite E in I.
+Qed.
+
+Theorem open_failure_only_when_last L m g :
+  Reach L m g ->
+  (* what an OpenFailure allowed by the contract does *)
+  (forall c t pa, feas L m g (TrOpenFailure c t pa) ->
+     exists ts, state_of m pa = Opening c ts /\ In t ts /\
+       let '(m', os) := step L m (TrOpenFailure c t pa) in
+       let g' := gstep (TrOpenFailure c t pa) os g in
+       match remove_tr t ts with
+       | [] => os = [ProtoDialFailure pa; EvOpenFailure c (errs_of m c + 1)] /\
+               state_of m' pa = Disconnected None /\ ~ owed g' c /\ In c (g_done g')
+       | ts' => os = [] /\ state_of m' pa = Opening c ts' /\
+                (forall u, In (c, u) (g_open g') <-> In u ts') /\ errs_of m' c = errs_of m c + 1
+       end) /\
+  (* and no other step reports an open failure *)
+  (forall e c n, In (EvOpenFailure c n) (snd (step L m e)) ->
+     exists t pa p d ts, e = TrOpenFailure c t pa /\ installed L t = true /\ lookup c (pending m) = Some p /\
+        state_of m p = Opening d ts /\ In t ts /\ remove_tr t ts = [] /\ n = errs_of m c + 1).
+Proof.
+  intros R. split.
+  - intros c t pa. apply open_failure_step. now apply reach_linv.
+  - intros e c n. apply open_failure_only_by_last.
+Qed.
+
+Theorem opened_cancels_rest L m g c t :
+  Reach L m g -> feas L m g (TrOpened c t false) ->
+  exists p ts, lookup c (pending m) = Some p /\ state_of m p = Opening c ts /\ In t ts /\
+    let '(m', os) := step L m (TrOpened c t false) in
+    let g' := gstep (TrOpened c t false) os g in
+    os = map (CallCancel c) ts ++ [CallNegotiate c t] /\
+    state_of m' p = Dialing c /\ lookup c (pending m') = Some p /\
+    (forall u, ~ In (c, u) (g_open g')) /\ In c (g_neg g') /\
+    (forall u f, ~ feas L m' g' (TrOpened c u f)) /\
+    (forall u pa, ~ feas L m' g' (TrOpenFailure c u pa)).
+Proof. intros R. apply opened_step. now apply reach_linv. Qed.
+
+Theorem inbound_supersedes_all L m g p c t d ts :
+  Reach L m g -> feas L m g (TrEstablished p c t true false) ->
+  state_of m p = Opening d ts -> limit_reached (max_in L) (ins m) = false ->
+  let '(m', os) := step L m (TrEstablished p c t true false) in
+  let g' := gstep (TrEstablished p c t true false) os g in
+  os = map (CallCancel d) ts ++ [CallAccept c t] /\
+  state_of m' p = Connected c None /\ lookup d (pending m') = None /\
+  (forall u, ~ In (d, u) (g_open g')) /\ ~ owed g' d /\ In d (g_super g').
+Proof. intros R. apply inbound_supersedes_step. now apply reach_linv. Qed.
+
+Theorem opening_set_owed L m g p c ts :
+  Reach L m g -> state_of m p = Opening c ts ->
+  ts <> [] /\ forall u, In u ts -> installed L u = true /\ In (c, u) (g_open g).
+Proof. intros R. apply opening_transports_owed. now apply reach_linv. Qed.
+
+Theorem no_stuck L m g e s :
+  Reach L m g -> feas L m g e -> ~ In (Stuck s) (snd (step L m e)).
+Proof. intros R. apply no_stuck_feasible. now apply reach_linv. Qed.
+
+Theorem handle_ok_sound L m g p ts clog :
+  Reach L m g -> feas L m g (HDialPeer p ts [] clog) ->
+  let '(m', os) := step L m (HDialPeer p ts [] clog) in
+  let g' := gstep (HDialPeer p ts [] clog) os g in
+  (In (Ret RET_OK) os ->
+     (exists c, dial_record (state_of m p) = Some c /\ owed g c /\ m' = m /\ os = [Ret RET_OK]) \/
+     (limit_reached (max_out L) (outs m) = false /\ ts <> [] /\
+      os = Ret RET_OK :: map (CallOpen (next_conn m)) ts ++ [Logged RET_OK] /\
+      state_of m' p = Opening (next_conn m) ts /\
+      (forall u, In u ts -> In (next_conn m, u) (g_open g')) /\
+      lookup (next_conn m) (g_att g') = Some p) \/
+     (limit_reached (max_out L) (outs m) = true /\ m' = m /\ os = [Ret RET_OK; Logged RET_LIMIT] /\ g' = g)) /\
+  (forall code, code <> RET_OK -> In (Ret code) os -> m' = m /\ os = [Ret code]).
+Proof. intros R. apply handle_gate_sound. now apply reach_linv. Qed.
+
+(* the address book holds installed kinds only — on every history, feasible or not *)
+Theorem kinds_installed L es : KInv L (fst (run L init es)).
+Proof. apply kinv_run, kinv_init. Qed.
+
+Lemma refused_address_unchanged L m a f :
+  (forall p, dial_shape LISTEN a = SvTcp p -> installed L TCP = false) ->
+  (forall p, dial_shape LISTEN a = SvWs p -> installed L WS = false) ->
+  exists code, do_dial_shape L m a f = (m, [Ret code]).
+Proof.
+  intros H1 H2. unfold do_dial_shape. destruct (limit_reached _ _); [eexists; reflexivity|].
+  destruct (dial_shape LISTEN a) as [code|p|p]; [eexists; reflexivity | |].
+  - unfold do_dial_addr. rewrite (H1 p eq_refl). eexists; reflexivity.
+  - unfold do_dial_addr. rewrite (H2 p eq_refl). eexists; reflexivity.
 Qed.
